@@ -1,56 +1,103 @@
 """C02 — T expressions replay the recorded operations: generators, implementation runner, shrinker.
 
-A case is {"target": PV, "expr": E}:
-  PV  tree value (lean/Glom/Py/PV.lean JSON shape): null | {"b":…} | {"i":…} | {"s":…} | {"f":hex}
-      (Lean side only: {"f":"?"} — a float whose value the kernel does not reproduce)
-      | {"l":[…]} | {"t":[…]} | {"d":[[k,v]…]} | {"fn":name} | {"o":[cls,[[attr,v]…]]}
-      (cls "Obj"/"Obj2": plain attribute objects, "slice": slice(start, stop, step),
-       "<bound>": a bound method of a builtin value)
-  E   {"lit":PV} | {"T":[[dunder,E]…]} | {"Spec":E} | {"list":[E…]} | {"tuple":[E…]}
-      | {"dict":[[E,E]…]} | {"call":{"args":[E…],"kwargs":[[name,E]…]}}
-run_impl builds the real objects from the case, runs glom.glom(target, T-expression) and —
-independently, on a fresh copy of the target — applies the same chain of operations directly with
-Python's own operators (arguments evaluated when their operation is reached; a call is a plain
-Python call).  Both legs also report the target object as it is afterwards (`impl_after`,
-`direct_after`: recorded calls may change it — list.pop / append, dict.pop / setdefault) and where in
-the target the very result object sits (`impl_alias`, `direct_alias`: identity, not equality).
+A case is {"target": PV+, "expr": E [, "lits": [PV+…]] [, "edits": […]] [, "prebuild": {"T": steps}]}:
+  PV+ tree value (lean/Glom/Py/PV.lean JSON shape): null | {"b":…} | {"i":…} | {"s":…} | {"f":hex}
+      | {"l":[…]} | {"t":[…]} | {"d":[[k,v]…]} | {"set":[…]} | {"fs":[…]} | {"fn":name}
+      | {"o":[cls,[[attr,v]…]]}   (cls: plain attribute objects Obj / Obj2, the probe classes Probe / PropObj /
+                                   DynObj / DescObj, "slice": slice(start, stop, step), "<bound>": a bound method)
+      | {"sub":[cls, PV+]}        an instance of the container SUBCLASS cls (Point, Pair, Column, MyList, Bag,
+                                   OrderedDict, defaultdict, Counter, MySet, FSet) with that content
+      | {"tobj": E} | {"specobj": E} | {"valobj": PV+}   a glom T expression / Spec(…) / Val(…) object stored as DATA
+  lits   the literal HEAP OBJECTS of the expression ({"hl": i} in E): instances of container subclasses /
+         catalogue classes — each ONE object of the spec, passed through literally, whatever it contains
+  edits  [[root, path], step, [root, path]]…: after decoding, the member `step` of the container at the first
+         place becomes THE OBJECT at the second place (root "T": the target, ["L", i]: literal object i) —
+         the target is a GRAPH when the evaluation starts (objects reachable by several paths, cycles)
+  shared [E…]: argument objects built ONCE per expression; {"sh": i} in E is that very object at every use (the
+         same T object as argument of two operations: evaluated each time its operation is reached)
+  E   {"lit":PV} | {"hl":i} | {"sh":i} | {"T":[[dunder,E]…]} | {"Spec":E} | {"list":[E…]} | {"tuple":[E…]}
+      | {"dict":[[E,E]…]} | {"set":[E…]} | {"fset":[E…]} | {"call":{"args":[E…],"kwargs":[[name,E]…]}}
+run_impl builds the real objects from the case (build_world), hands the driver the OBJECT GRAPH as it is before
+the evaluation (g_heap / g_target / g_lits: cells with class names, addresses), runs glom.glom(target,
+T-expression) and — independently, on a fresh copy of the world — applies the same chain of operations directly
+with Python's own operators (arguments evaluated when their operation is reached; a call is a plain Python call
+whose callee is first passed through the reference arg_val: a spec object found in the data is evaluated).  Both
+legs report the object graph reachable from [result, target, literal objects…] and from [target, target,
+literal objects…] afterwards, addresses renumbered in first-visit order (GEnc / obs_graph; Lean: `canon`):
+value, identity of the result, sharing, cycles, what the recorded calls did to the target AND to the literal
+objects of the spec are all in it.  Objects whose identity Python programs cannot rely on (exact tuples and
+frozensets, bound methods, dict views, slices) are expanded at every occurrence.
 """
+import collections
 import json
 import operator
 import os
+import random
 import warnings
 
 from harness import pyobjs
 
 PROP = 'C02'
 LEAN_MODULES = ['Glom.Props.C02']
-FACT_FILES = ['TFacts', 'ExcFacts']
+FACT_FILES = ['TFacts', 'ExcFacts', 'C02Facts']
 READY = True
 MANIFEST = dict(
-    text="Lean 4 theorems, for every value type, every state type and every primitive semantics `prim` of getattr/subscription/arithmetic/calls — each operation takes a state and returns the state it leaves, so calls may CHANGE the target — (a parameter, so the statement is about glom's record-and-replay logic), every target, every start state and every T expression of any length and nesting of T / Spec(T) / list / tuple / dict arguments: `_t_eval` on the object recorded by the TType overloads (flat tuple, index stepping by 2, branch table, arg_val on every argument INSIDE the loop against the original target object in its current state, the recorded (args, kwargs) of a call handed unevaluated to Call, which evaluates callee / arguments / keyword arguments once and calls) equals the chain of operations applied directly, left to right, as a pair (outcome, state left) — also when it ends with an error (`c02_replay`); the first failing attribute/item/arithmetic step is PathAccessError(position) — for an arithmetic step whatever the right operand is, for TypeError, ZeroDivisionError, OverflowError and ValueError; the facts obligation demands that the branch's `except` clause covers these four (by the class or a base class, decided on the exception table extracted from Python) with a handler that converts unconditionally, `c02_conditional_handler_counterexample` —, a failing call keeps its class (`c02_error_classes`); a nested argument is evaluated on the original target object in the state left by the operations before it (`c02_args_from_root`); evaluating all arguments in front of the loop is NOT equivalent (`c02_hoisted_args_counterexample`); the callee of a recorded call receives the very objects its arguments evaluate to, each evaluated exactly once (`c02_call_by_reference`, `c02_args_evaluated_once`; the code shape before /repo commit db9b8f7, a second arg_val pass, does not replay: `c02_second_pass_counterexample`); per-run facts obligation `c02_facts_wf` by `decide` on the tables regenerated from /repo: every op char recorded by a TType overload has a `_t_eval` branch performing the operation its dunder denotes (no recorded operation is dropped). Model tied to the code by a three-way differential check: real glom vs the same chain applied with Python's own operators vs the compiled Lean model/reference (instance: values with object identity in a heap), comparing outcome, identity of the result object (its alias path in the target) AND the target object afterwards.",
-    note="trusted: Lean kernel + {propext, Classical.choice, Quot.sound}; extractor (TType overloads, _t_eval branch table, except clauses, part_idx expression); harness/driver; Python's primitive semantics is a theorem parameter, its executable instance (Glom/Model/C02Heap.lean on top of C02Prim.lean: a heap of list/tuple/dict/object/slice/bound-method cells with identity, list.pop/append, dict.pop/setdefault/get, floor division, two's-complement bit ops, IEEE true division, slices, str/list/tuple/dict operations, a catalogue of callables) is validated on every case against CPython itself, including the final state of the target; hypothesis `PlainCallee` (the CALLEE of a recorded call is not a glom spec object stored in the target: Call.glomit passes the already evaluated callee through arg_val, a callable is a literal there; counter-example kept as theorem `c02_callee_eval_counterexample`; arguments need no hypothesis); the exemption `if op != '('` of the loop is a hard-coded character in the model, tied to the extracted branch table by the facts obligation `callCharOk` (the exempted character is the call branch's and only it); reading §6.1 (a failing call keeps its exception class; a failing nested T argument reports its own position); S/A roots, Path segments and wildcards are other properties.",
-    technique='Lean 4 refinement proof (flat ops loop + arg_val recursion = direct application of the operator chain, generic in the primitive semantics) + facts obligation by decide + three-way differential correspondence',
+    text="Lean 4 theorems, for every value type, every state type and every primitive semantics `prim` of getattr/subscription/arithmetic/calls — each operation takes a state and returns the state it leaves, so calls may CHANGE the target — (a parameter, so the statement is about glom's record-and-replay logic), every target, every start state (any object graph: sharing, cycles) and every T expression of any length and nesting of T / Spec(T) / list / tuple / dict / set / frozenset arguments and literal objects of any other type: `_t_eval` on the object recorded by the TType overloads (flat tuple, index stepping by 2, branch table, arg_val on every argument INSIDE the loop against the original target object in its current state, the recorded (args, kwargs) of a call handed unevaluated to Call, which passes the callee through arg_val, evaluates arguments / keyword arguments once and calls) equals the chain of operations applied directly, left to right, as a pair (outcome, state left) — also when it ends with an error — where the callee of a call is first passed through arg_val (`c02_replay_reval`, NO hypothesis on the primitives: a glom spec object found in the target's data and used as callee is evaluated against the target, may fail with the position of its own chain, may change the state); under `PlainCallee` (arg_val returns the callee: it is not such an object) that is plain Python (`c02_replay`); a literal argument that is an instance of a SUBCLASS of a builtin container (namedtuple, defaultdict, OrderedDict, Counter, a user's list type) reaches the operation as the very object, nothing in it evaluated, nothing built, state untouched (`c02_literal_by_reference`) — because the type tests of `_ArgValuator.mode` are EXACT tests naming exactly list / dict / tuple / set / frozenset, part of the facts obligation (`argModeOk`, extracted by extract/facts/c02.py; with `isinstance` tests the model rebuilds the argument: `c02_isinstance_counterexample`); the first failing attribute/item/arithmetic step is PathAccessError(position) — for an arithmetic step whatever the right operand is, for TypeError, ZeroDivisionError, OverflowError and ValueError; the facts obligation demands that the branch's `except` clause covers these four (by the class or a base class, decided on the exception table extracted from Python) with a handler that converts unconditionally, `c02_conditional_handler_counterexample` —, a failing call keeps its class (`c02_error_classes`); an argument — any argument expression — is evaluated on the original target object in the state left by the operations before it (`c02_args_from_root`; a subclass-instance literal IS the operand: `c02_subclass_literal_operand`; for a call: the callee through arg_val, then the arguments, then the call: `c02_call_order`); evaluating all arguments in front of the loop is NOT equivalent (`c02_hoisted_args_counterexample`), nor is keeping the value an argument OBJECT had at its first use when the same T object is the argument of two operations (`c02_arg_memo_counterexample`); the callee of a recorded call receives the very objects its arguments evaluate to, each evaluated exactly once (`c02_call_by_reference`, `c02_args_evaluated_once`; the code shape before /repo commit db9b8f7, a second arg_val pass, does not replay: `c02_second_pass_counterexample`); per-run facts obligation `c02_facts_wf` by `decide` on the tables regenerated from /repo: every op char recorded by a TType overload has a `_t_eval` branch performing the operation its dunder denotes (no recorded operation is dropped). For the executable kernel (`hPrim`: heap cells with class names and identity; properties / __getattr__ / descriptors, slices, dict views, str methods, sets, every operator) `c02_replay_heap`, and `c02_heap_callee_plain`: arg_val returns every callee that is neither a spec object nor an exact builtin container. Model tied to the code by a three-way differential check: real glom vs the same chain applied with Python's own operators vs the compiled Lean model/reference, comparing the OBJECT GRAPH reachable from [result, target, literal objects of the spec] (addresses renumbered in first-visit order: value, identity of the result, sharing, cycles) and the graph left behind.",
+    note="trusted: Lean kernel + {propext, Classical.choice, Quot.sound}; extractor (TType overloads, _t_eval branch table, except clauses, part_idx expression, the type tests of _ArgValuator.mode); harness/driver; Python's primitive semantics is a theorem parameter, its executable instance (Glom/Model/C02Heap.lean on top of C02Prim.lean: a heap of list/tuple/dict/set/object cells with class names and identity — instances of container subclasses are cells of the same layouts —, slice / bound-method / dict-view / stored T, Spec, Val cells, list.pop/append, dict.pop/setdefault/get/keys/values/items, set operators and add/discard/union, 15 str methods, properties / __getattr__ / descriptors of three probe classes, floor division, two's-complement bit ops, IEEE true division, slices for all Option-Int triples, a catalogue of callables incl. list() / tuple()) is validated on every case against CPython itself, including the final object graph; `c02_replay` (plain Python) needs hypothesis `PlainCallee`, counter-example kept as theorem `c02_callee_eval_counterexample`; `c02_replay_reval` states what glom does for every callee and the correspondence is run against THAT reference (the callee of a call is first passed through the reference arg_val, in Lean and in the Python leg); the exemption `if op != '('` of the loop is a hard-coded character in the model, tied to the extracted branch table by the facts obligation `callCharOk`; reading §6.1 (a failing call keeps its exception class; a failing nested T argument / a failing spec-object callee reports its own position); S/A roots, Path segments and wildcards are other properties.",
+    technique='Lean 4 refinement proof (flat ops loop + arg_val recursion = direct application of the operator chain, generic in the primitive semantics and in the callee re-evaluation) + facts obligations by decide (branch table, exception table, type tests of _ArgValuator.mode) + three-way differential correspondence on object graphs',
     ref='DESIGN.md §3 C02, §6.1')
 RULE = ('type-directed: a nested target (dict / list / tuple / attribute objects / str / int / bool / None / '
-        'catalogue callables) is generated first; the chain is then grown step by step, each step chosen '
+        'catalogue callables; with some probability also a probe object, tuple-keyed dicts, instances of container '
+        'subclasses, sets / frozensets, objects with properties / __getattr__ / descriptors, the builtins list / '
+        'tuple, a glom T / Spec object stored as data) is generated first and — one case in four — made a GRAPH by '
+        '1-2 sharing edits (the member of a container becomes an object the target already has elsewhere: two paths '
+        'to one object, or a cycle); the chain is then grown step by step, each step chosen '
         'among the operations valid for the type of the value reached so far (computed by applying the '
-        'step with Python itself): .attr, [key], [index], [slice], (call) of catalogue functions and '
-        'builtin methods, + - * / // % ** & | ^ ~ neg; arguments are literals or — with probability ~0.3 — '
-        'nested T / Spec(T) expressions (or list/tuple/dict literals containing them) drawn from an index '
-        'of the access paths of the ORIGINAL target that yield a value of the needed type; depth <= 6 '
+        'step with Python itself): .attr, [key], [index], [slice] (bounds absent / inside / at / beyond either end / '
+        '±10**20 / bools, steps ±1 ±2 ±3 ±n ±10**20), (call) of catalogue functions and '
+        'builtin methods (str: upper lower strip lstrip rstrip split join replace find count index startswith '
+        'endswith isdigit capitalize; list: count index pop append; dict: get pop setdefault keys values items; '
+        'set: add discard union), + - * / // % ** & | ^ ~ neg on numbers, sequences, sets and dicts; '
+        'arguments are literals or — with probability ~0.3 — '
+        'nested T / Spec(T) expressions (or list/tuple/dict/set literals containing them) drawn from an index '
+        'of the access paths of the ORIGINAL target that yield a value of the needed type; a list / tuple / dict '
+        'literal is — probability 0.12 — an INSTANCE OF A CONTAINER SUBCLASS with that content (one literal object of '
+        'the spec, sometimes holding a T object); depth <= 6 '
         '(quick) / <= 9 (thorough). A one-edit mutation stream replaces the step at every position by a '
-        'failing one (missing key/attr, index out of range, wrong operand type, zero divisor, 0 ** -1, '
+        'failing one (missing key/attr, index out of range / beyond Py_ssize_t, a slice with a str / float / zero '
+        'field, wrong operand type, zero divisor, 0 ** -1, '
         'calling a non-callable, wrong arity, a called function raising Key/Value/Type/ZeroDivision/'
-        'Attribute/IndexError, a failing nested T argument, an unhashable key in a dict argument). '
-        'Calls that change the target (list.pop([i]) / append(x), dict.pop(k[, d]) / setdefault(k, v)) are '
+        'Attribute/IndexError, a property / __getattr__ / descriptor raising AttributeError or another class, '
+        'a failing nested T argument, an unhashable key in a dict argument). '
+        'SUBCLASS-LITERAL STREAM (a quarter of the cases): every catalogue class (namedtuple, tuple / list / dict '
+        'subclasses with their own constructor signature, plain list subclass, OrderedDict, defaultdict, Counter, '
+        'set / frozenset subclasses) x every argument position — index (of a probe that returns its argument itself; '
+        'of a tuple-keyed dict), positional / keyword / repeated call argument of the identity and list-making '
+        'functions, right operand of every operator (probe; list + / tuple + / dict |), argument of a builtin method '
+        '(append / setdefault store it in the target), member of a list / dict / tuple literal, a literal holding a T '
+        'object — followed by 0-3 operations on the result (mutation THROUGH the returned object shows in the literal). '
+        'Calls that change the target (list.pop([i]) / append(x), dict.pop(k[, d]) / setdefault(k, v), set.add / '
+        'discard) are '
         'ordinary steps; after one, the index of access paths is rebuilt so that later nested arguments read '
         'the changed containers; templates T[l].pop() <op> T[l][i], … + len(T[l]), dict pop / setdefault then a '
         'read of the same key; thorough: every (list op) x (later nested read) x (outer operator) on a small '
-        'list. Reference templates: the identity / mklist / kw catalogue functions called with containers of '
-        'the target (the result must BE the target\'s object: alias path compared), mutation through the returned '
+        'list. SHARING templates: one list under two paths (changed through one, read through the other), a list '
+        'containing itself, a dict reaching the root / itself, a list shared between a tuple and a dict, an object '
+        'reachable twice. SPEC-CALLEE templates: T[g](args) with target[g] one of 32 spec objects (T… evaluating to a '
+        'function / bound method / non-callable / failing at position 0 or 1 / calling / changing the target, Spec(T…), '
+        'Val(x), a list / tuple holding a T, a T whose own chain calls through another stored T) x literal / nested / '
+        'failing / target-changing arguments. VIEW templates: list() / tuple() / len() over live dict views taken '
+        'before the dict changes, over strs / lists / dicts; str.join over lists / dicts / views; sets. '
+        'SHARED-ARGUMENT objects: the equal nested T arguments of a generated expression become — per group, '
+        'probability 1/2 — ONE object of the spec used at every place ({"sh": i}; a user writes k = T[...] once '
+        'and uses k twice); templates: an argument object R that reads the last element / the length / a cursor '
+        'cell, used as index / operand / call argument / list member / inside another shared object before AND '
+        'after a call M (in the chain or inside a later argument) that pops / appends / moves the cursor, incl. a '
+        'second use that fails only after M. '
+        'Reference templates: the identity / mklist / kw catalogue functions called with containers of '
+        'the target (the result must BE the target\'s object), mutation through the returned '
         'argument followed by a read of the same container, a T object stored in the target passed as '
-        '(keyword) argument or inside a list argument (must come back as that object, compared by repr). '
-        'Targets are trees (no object reachable by two paths) — sharing only arises during evaluation. '
+        '(keyword) argument or inside a list argument (must come back as that object). '
         'Non-callable callee templates: T[f](args…) with target[f] an int / str / None / float / list / tuple / '
         'dict / attribute object (or the target itself) x fine / failing / target-changing nested T arguments, '
         'positional and keyword, in every order (the arguments are evaluated before the call finds out that '
@@ -68,12 +115,16 @@ RULE = ('type-directed: a nested target (dict / list / tuple / attribute objects
         'malformed format) — with a literal or (probability 1/2) nested T / Spec(T) right operand read from the '
         'original target; when the value reached cannot fail that way, one valid step in front makes it suitable '
         '(x * 0, x + 10**400, s + "%"); the case is kept only when the chain applied directly in Python fails '
-        'at the intended position; operations behind the failing one are never reached. thorough: every '
+        'at the intended position; operations behind the failing one are never reached. A sample of the grid '
+        'operator x left type x right type (int, bool, float, str, list, tuple, set, frozenset, dict, None; empty and '
+        'non-empty); thorough: the whole grid (10 x 16 x 16, literal and nested-T right operand, both unary '
+        'operators), every subclass-literal class x position x follow-up, every '
         'binary operator x 14 left operands x 16 right operands (zeros, negative / big exponents, huge ints, '
         'foreign types) with literal and nested-T right operand. '
-        'non-trivial = at least two operations, or a failing chain, or a nested T argument; '
-        'distinct = distinct (target, expression)')
-TRUSTED = ['Glom/Model/C02Prim.lean (executable instance of the primitive semantics) is validated against '
+        'non-trivial = at least two operations, or a failing chain, or a nested T argument, or a literal heap '
+        'object, or a shared / cyclic target; '
+        'distinct = distinct (target, edits, literal objects, expression)')
+TRUSTED = ['Glom/Model/C02Heap.lean + C02Prim.lean (executable instance of the primitive semantics) is validated against '
            'CPython on every generated case (third leg of the comparison), not verified',
            'strings are ASCII; floats are compared by float.hex(); + - * / and unary minus on floats, int / int and '
            'float(int) for ints of any size (round-half-even by integer arithmetic), exact powers of two are '
@@ -81,19 +132,26 @@ TRUSTED = ['Glom/Model/C02Prim.lean (executable instance of the primitive semant
            'outcome (a float / ZeroDivisionError / OverflowError / TypeError) and returns an opaque float that '
            'matches any float (observations are compared modulo opaque floats; the property itself is then '
            'evaluated against Python\'s own result); x / opaque, opaque ** x, x ** opaque, a power within 0.01 of '
-           'the overflow threshold in log2, complex results, inf / nan operands of **, str % x are outside the '
-           'kernel (property still evaluated against Python\'s own result)',
+           'the overflow threshold in log2, complex results, inf / nan operands of **, str % x, iteration order of '
+           'sets with more than one member, set operators over members equal across types (True / 1), dict | with a '
+           'dict subclass, missing keys of defaultdict, attributes of instances of container subclasses other than '
+           'namedtuple fields, any operation ON a stored T / Spec object (it records a new expression) are outside the '
+           'kernel (the property is still evaluated, against Python\'s own result)',
+           'the observation is the object graph in canonical numbering; exact tuples, exact frozensets, bound methods, '
+           'dict views and slices are expanded per occurrence (CPython reuses such objects: t[:] is t, t + () is t, () '
+           'is shared): their identity is not compared',
            'the extractor lists a class of an `except` clause of _t_eval only when the handler\'s whole body is '
-           '`pae = PathAccessError(e, Path(_t), <position>)`']
-ASSUMPTIONS = ['the CALLEE of a recorded call is not a glom spec object stored in the target (Call.glomit runs '
-               'arg_val over the already evaluated callee: glom({"g": T["f"], "f": ident}, T["g"](1)) calls ident, '
-               'target["g"](1) would build the expression T["f"](1)); stored T objects as ARGUMENTS are fine and '
-               'generated (evaluated once since /repo commit db9b8f7)',
-               'the target is a tree when the evaluation starts (no object reachable by two paths)',
-               'T-rooted expressions; S/A roots are C07, Path segments C01, wildcards C14',
-               'Spec arguments wrap T expressions; Val/Call/other spec objects as arguments are outside the fragment',
+           '`pae = PathAccessError(e, Path(_t), <position>)`; it recognises the type tests `type(spec) in (…)`, '
+           '`type(spec) is / == X`, `isinstance(spec, X | (…))` and `or` of them in `_ArgValuator.mode`']
+ASSUMPTIONS = ['T-rooted expressions; S/A roots are C07, Path segments C01, wildcards C14',
+               'Spec arguments wrap T expressions; Call/other spec objects as arguments are outside the fragment; a spec '
+               'object found in the target and used as CALLEE: T…, Spec(T…), Val(x) are modelled (evaluated against the '
+               'target, as glom does — plain Python would call the object: `c02_callee_eval_counterexample`), others are '
+               'outside the fragment',
+               'a literal exact list / dict of the spec is a tree (`_ArgValuator.cache`, which keeps sharing and cycles '
+               'INSIDE one rebuilt literal, is modelled in the Python reference leg only)',
                'reading DESIGN §6.1: an exception raised by a called function keeps its class; '
-               'a failing nested T argument surfaces with its own position']
+               'a failing nested T argument / a failing spec-object callee surfaces with its own position']
 
 warnings.simplefilter('ignore', DeprecationWarning)
 
@@ -154,17 +212,177 @@ def raise_index(*a, **k):
 
 FUNCS = {f.__name__: f for f in [inc, add2, neg, ident, kw, mklist, const7, raise_value, raise_key,
                                  raise_type, raise_zero, raise_attr, raise_index, len]}
-FUNC_NAME = {id(f): n for n, f in FUNCS.items()}
+# the builtin constructors list / tuple are catalogue callables too (iteration of views, sets, strs);
+# they are offered by templates only (XFUNCS), not by the random target generator
+XFUNCS = {'list': list, 'tuple': tuple}
+FUNC_NAME = {id(f): n for n, f in list(FUNCS.items()) + list(XFUNCS.items())}
+ALLFUNCS = dict(FUNCS, **XFUNCS)
 RAISERS = ['raise_value', 'raise_key', 'raise_type', 'raise_zero', 'raise_attr', 'raise_index']
 METHODS = {'str': ['upper', 'count', 'index', 'startswith'], 'list': ['count', 'index', 'pop', 'append'],
            'tuple': ['count', 'index'], 'dict': ['get', 'pop', 'setdefault']}
-MUTATORS = ('pop', 'append', 'setdefault')
+MUTATORS = ('pop', 'append', 'setdefault', 'add', 'discard')
 # calls that change the target: the Lean model threads the target's state through the replay
 # (Model/C02.lean: every function takes and returns the state; Model/C02Heap.lean: values with
 # object identity in a heap)
 STATEFUL = True
 
-# ---------------------------------------------------------------- PV codec
+# ---------------------------------------------------------------- catalogue of classes
+# instances of SUBCLASSES of the builtin containers (literal arguments of these types must reach the
+# operation as the very object), and probe classes for Python's attribute protocol
+
+Point = collections.namedtuple('Point', 'x y')
+
+
+class Pair(tuple):
+    """a tuple subclass whose constructor does not take an iterable"""
+    def __new__(cls, a, b):
+        return tuple.__new__(cls, (a, b))
+
+
+class Column(list):
+    """a list subclass with its own constructor signature and an instance attribute"""
+    def __init__(self, name, values=()):
+        list.__init__(self, values)
+        self.name = name
+
+
+class MyList(list):
+    pass
+
+
+class Bag(dict):
+    """a dict subclass with its own constructor signature"""
+    def __init__(self, tag, entries=()):
+        dict.__init__(self, entries)
+        self.tag = tag
+
+
+class MySet(set):
+    pass
+
+
+class FSet(frozenset):
+    pass
+
+
+class Probe:
+    """subscription and every binary operator return the right operand ITSELF (and remember it):
+    the identity of an argument is observable"""
+    def __init__(self, **kw):
+        self.__dict__.update(kw)
+
+    def __getitem__(self, k):
+        self.last = k
+        return k
+
+    def _op(self, o):
+        self.last = o
+        return o
+    __add__ = __sub__ = __mul__ = __truediv__ = __floordiv__ = __mod__ = __pow__ = _op
+    __and__ = __or__ = __xor__ = _op
+
+
+class PropObj:
+    """properties: computed, and raising each class of error"""
+    def __init__(self, **kw):
+        self.__dict__.update(kw)
+    p_ok = property(lambda self: self.a)
+
+    @property
+    def p_attr(self):
+        raise AttributeError('p_attr')
+
+    @property
+    def p_val(self):
+        raise ValueError('p_val')
+
+    @property
+    def p_key(self):
+        raise KeyError('p_key')
+
+    @property
+    def p_zero(self):
+        raise ZeroDivisionError('p_zero')
+
+
+class DynObj:
+    """__getattr__: consulted only when normal lookup fails"""
+    def __init__(self, **kw):
+        self.__dict__.update(kw)
+
+    def __getattr__(self, name):
+        if name.startswith('dyn_'):
+            return name[4:]
+        if name == 'boom':
+            raise ValueError(name)
+        if name == 'lookup':
+            raise KeyError(name)
+        raise AttributeError(name)
+
+
+class _DataDesc:
+    def __get__(self, obj, cls):
+        return obj.a
+
+    def __set__(self, obj, v):      # a data descriptor: wins over the instance dict
+        raise AttributeError('read-only')
+
+
+class _NonDataDesc:
+    def __get__(self, obj, cls):    # the instance dict wins
+        return 'nd'
+
+
+class _BadDesc:
+    def __get__(self, obj, cls):
+        raise ValueError('dbad')
+
+    def __set__(self, obj, v):
+        raise AttributeError('read-only')
+
+
+class DescObj:
+    d = _DataDesc()
+    nd = _NonDataDesc()
+    dbad = _BadDesc()
+
+    def __init__(self, **kw):
+        self.__dict__.update(kw)
+
+
+INST = {c.__name__: c for c in [pyobjs.Obj, pyobjs.Obj2, Probe, PropObj, DynObj, DescObj]}
+INST_TYPES = tuple(INST.values())
+# container subclasses: name -> (base layout, constructor from the content of the base type)
+SUBCLS = {
+    'Point': ('tuple', lambda xs: Point(*xs)),
+    'Pair': ('tuple', lambda xs: Pair(*xs)),
+    'Column': ('list', lambda xs: Column('c', xs)),
+    'MyList': ('list', MyList),
+    'Bag': ('dict', lambda d: Bag('t', d)),
+    'OrderedDict': ('dict', collections.OrderedDict),
+    'defaultdict': ('dict', lambda d: collections.defaultdict(const7, d)),
+    'Counter': ('dict', lambda d: collections.Counter(d)),
+    'MySet': ('set', MySet),
+    'FSet': ('frozenset', FSet),
+}
+SUBTYPES = {'Point': Point, 'Pair': Pair, 'Column': Column, 'MyList': MyList, 'Bag': Bag,
+            'OrderedDict': collections.OrderedDict, 'defaultdict': collections.defaultdict,
+            'Counter': collections.Counter, 'MySet': MySet, 'FSet': FSet}
+SUBNAME = {t: n for n, t in SUBTYPES.items()}
+BASE_TYPES = {'list': list, 'tuple': tuple, 'dict': dict, 'set': set, 'frozenset': frozenset}
+
+
+def is_heap_literal(v):
+    """a literal that is ONE object of the expression (not spelled structurally): an instance of a
+    container subclass or of a catalogue class"""
+    return type(v) in SUBNAME or isinstance(v, INST_TYPES)
+
+
+# ---------------------------------------------------------------- tree codec (case input)
+# PV+ : the PV shapes, plus (Python side only; the driver receives the object graph, see GEnc)
+#   {"sub": [cls, PV+]}   an instance of the container subclass `cls` with the content PV+ (of the base type)
+#   {"set": [..]} / {"fs": [..]}
+#   {"tobj": E} / {"specobj": E} / {"valobj": PV+}   a glom T expression / Spec(T…) / Val(x) object stored as DATA
 
 
 def dec(j):
@@ -184,10 +402,25 @@ def dec(j):
         return tuple(dec(x) for x in j['t'])
     if 'd' in j:
         return {dec(k): dec(v) for k, v in j['d']}
+    if 'set' in j:
+        return {dec(x) for x in j['set']}
+    if 'fs' in j:
+        return frozenset(dec(x) for x in j['fs'])
     if 'fn' in j:
-        return FUNCS[j['fn']]
+        return ALLFUNCS[j['fn']]
+    if 'sub' in j:
+        cls, inner = j['sub']
+        return SUBCLS[cls][1](dec(inner))
+    if 'tobj' in j:
+        return build_arg(j['tobj'], [])
+    if 'specobj' in j:
+        from glom import Spec
+        return Spec(build_arg(j['specobj'], []))
+    if 'valobj' in j:
+        from glom.core import Val
+        return Val(dec(j['valobj']))
     if 'sent' in j:
-        return tobjs()[j['sent']]            # a glom T object stored in the target as plain data
+        return tobjs()[j['sent']]            # (corpus cases of earlier rounds) a T object by its repr
     if 'o' in j:
         cls, attrs = j['o']
         if cls == 'slice':
@@ -196,7 +429,7 @@ def dec(j):
         if cls == '<bound>':
             a = dict((k, dec(v)) for k, v in attrs)
             return getattr(a['self'], a['name'])
-        o = pyobjs.CLASSES[cls].__new__(pyobjs.CLASSES[cls])
+        o = INST[cls].__new__(INST[cls])
         for k, v in attrs:
             o.__dict__[k] = dec(v)
         return o
@@ -207,7 +440,7 @@ _TOBJS = {}
 
 
 def tobjs():
-    """the T objects a target may contain as data, by their repr"""
+    """the T objects of the corpus cases of earlier rounds, by their repr"""
     if not _TOBJS:
         from glom import T
         for t in (T['b'], T['n'], T['l'][0], T['zz']):
@@ -215,11 +448,85 @@ def tobjs():
     return _TOBJS
 
 
+_CHAR_DUNDER = {}
+
+
+def char_dunder():
+    """op character -> dunder, read off what the TType overloads record"""
+    if not _CHAR_DUNDER:
+        from glom import T
+        for d in KIND:
+            if d == '__getattr__':
+                t = T.a
+            elif d == '__getitem__':
+                t = T[0]
+            elif d == '__call__':
+                t = T()
+            elif d == '__invert__':
+                t = ~T
+            elif d == '__neg__':
+                t = -T
+            else:
+                t = BIN[d](T, 1)
+            _CHAR_DUNDER[t.__ops__[1]] = d
+    return _CHAR_DUNDER
+
+
+def e_of_obj(a):
+    """the expression E that denotes the argument object `a` of a stored T expression"""
+    from glom import Spec
+    if type(a).__name__ == 'TType':
+        return {'T': steps_of_ops(a.__ops__)}
+    if type(a) is Spec:
+        return {'Spec': e_of_obj(a.spec)}
+    if type(a) is list:
+        return {'list': [e_of_obj(x) for x in a]}
+    if type(a) is tuple:
+        return {'tuple': [e_of_obj(x) for x in a]}
+    if type(a) is dict:
+        return {'dict': [[e_of_obj(k), e_of_obj(v)] for k, v in a.items()]}
+    return {'lit': enc(a)}
+
+
+def steps_of_ops(ops):
+    cd = char_dunder()
+    steps = []
+    for i in range(1, len(ops), 2):
+        d = cd[ops[i]]
+        a = ops[i + 1]
+        if d == '__call__':
+            args, kwargs = a
+            steps.append([d, {'call': {'args': [e_of_obj(x) for x in args],
+                                       'kwargs': [[k, e_of_obj(v)] for k, v in kwargs.items()]}}])
+        elif d in UNARY:
+            steps.append([d, {'lit': None}])
+        elif d == '__getattr__':
+            steps.append([d, {'lit': {'s': a}}])
+        else:
+            steps.append([d, e_of_obj(a)])
+    return steps
+
+
+def set_key(v):
+    """canonical member order of a set (the Lean kernel's `setCanon`)"""
+    if v is None:
+        return (0, 0, '')
+    if isinstance(v, (bool, int, float)):
+        return (1, v, '')
+    if isinstance(v, str):
+        return (2, 0, v)
+    return (3, 0, repr(v))
+
+
 def enc(v, depth=0):
     if depth > 40:
         return {'sent': '<deep>'}
     if type(v).__name__ == 'TType':
-        return {'sent': repr(v)}
+        return {'tobj': {'T': steps_of_ops(v.__ops__)}}
+    if type(v).__name__ == 'Spec' and type(v).__module__.startswith('glom'):
+        return {'specobj': e_of_obj(v.spec)}
+    if type(v).__name__ == 'Val' and type(v).__module__.startswith('glom'):
+        return {'valobj': enc(v.value, depth + 1)}
     if v is None:
         return None
     if isinstance(v, bool):
@@ -236,16 +543,169 @@ def enc(v, depth=0):
         return {'t': [enc(x, depth + 1) for x in v]}
     if type(v) is dict:
         return {'d': [[enc(k, depth + 1), enc(x, depth + 1)] for k, x in v.items()]}
+    if type(v) is set:
+        return {'set': [enc(x, depth + 1) for x in sorted(v, key=set_key)]}
+    if type(v) is frozenset:
+        return {'fs': [enc(x, depth + 1) for x in sorted(v, key=set_key)]}
+    if type(v) in SUBNAME:
+        base = SUBCLS[SUBNAME[type(v)]][0]
+        inner = BASE_TYPES[base](dict.items(v)) if base == 'dict' else BASE_TYPES[base](v)
+        return {'sub': [SUBNAME[type(v)], enc(inner, depth + 1)]}
     if id(v) in FUNC_NAME:
         return {'fn': FUNC_NAME[id(v)]}
     if type(v) is slice:
         return {'o': ['slice', [['start', enc(v.start)], ['stop', enc(v.stop)], ['step', enc(v.step)]]]}
-    if type(v) in (pyobjs.Obj, pyobjs.Obj2):
+    if isinstance(v, INST_TYPES):
         return {'o': [type(v).__name__, [[k, enc(x, depth + 1)] for k, x in v.__dict__.items()]]}
     slf = getattr(v, '__self__', None)
     if slf is not None and type(v).__name__ == 'builtin_function_or_method' and not isinstance(slf, type(os)):
         return {'o': ['<bound>', [['self', enc(slf, depth + 1)], ['name', {'s': v.__name__}]]]}
     return {'sent': '<%s>' % type(v).__name__}
+
+
+# ---------------------------------------------------------------- object-graph codec (what the driver sees)
+class GEnc:
+    """dump object graphs into heap cells (lean/Glom/Py/Json.lean `objOfJson`): every container /
+    instance gets the next address at its FIRST visit, depth-first, children in their natural order
+    (a dict's: key, value, key, value, …) — the canonical numbering the Lean side computes too
+    (`Glom.C02.canon`).  Identity, sharing and cycles are all in the result."""
+
+    def __init__(self, unshare=False):
+        # unshare: objects whose identity Python programs cannot rely on (exact tuples and frozensets —
+        # CPython returns the operand itself for t[:], t + (), t * 1 and shares () —, bound methods, dict
+        # views, slices) are expanded at every occurrence (the canonical form of OBSERVATIONS)
+        self.cells, self.addr, self.keep, self.unshare = [], {}, [], unshare
+
+    def val(self, v):
+        if v is None:
+            return None
+        t = type(v)
+        if t is bool:
+            return {'b': v}
+        if t is int:
+            return {'i': v}
+        if t is str:
+            return {'s': v}
+        if t is float:
+            return {'f': v.hex()}
+        if id(v) in FUNC_NAME:
+            return {'fn': FUNC_NAME[id(v)]}
+        a = self.addr.get(id(v))
+        if a is None:
+            a = self.cell(v)
+        if a is None:
+            return {'sent': '<%s>' % t.__name__}
+        return {'r': a}
+
+    def open(self, v, identity=True):
+        a = len(self.cells)
+        self.cells.append(None)
+        if identity or not self.unshare:
+            self.addr[id(v)] = a
+        self.keep.append(v)
+        return a
+
+    def cell(self, v):
+        t = type(v)
+        tn = t.__name__
+        if isinstance(v, list):
+            a = self.open(v)
+            self.cells[a] = {'k': 'list', 'c': 'list' if t is list else tn, 'v': [self.val(x) for x in list.__iter__(v)]}
+        elif isinstance(v, tuple):
+            a = self.open(v, t is not tuple)
+            self.cells[a] = {'k': 'tuple', 'c': 'tuple' if t is tuple else tn, 'v': [self.val(x) for x in tuple.__iter__(v)]}
+        elif isinstance(v, dict):
+            a = self.open(v)
+            self.cells[a] = {'k': 'dict', 'c': 'dict' if t is dict else tn,
+                             'v': [[self.val(k), self.val(x)] for k, x in dict.items(v)]}
+        elif isinstance(v, (set, frozenset)):
+            a = self.open(v, t is not frozenset)
+            self.cells[a] = {'k': 'set', 'c': tn, 'v': [self.val(x) for x in sorted(v, key=set_key)]}
+        elif t is slice:
+            a = self.open(v, False)
+            self.cells[a] = self.inst('slice', [('start', v.start), ('stop', v.stop), ('step', v.step)])
+        elif tn in ('builtin_function_or_method', 'method-wrapper') and getattr(v, '__self__', None) is not None \
+                and not isinstance(v.__self__, type(os)):
+            a = self.open(v, False)
+            self.cells[a] = self.inst('<bound>', [('self', v.__self__), ('name', v.__name__)])
+        elif tn in ('dict_keys', 'dict_values', 'dict_items'):
+            import gc
+            ds = [d for d in gc.get_referents(v) if isinstance(d, dict)]
+            if not ds:
+                return None
+            a = self.open(v, False)
+            self.cells[a] = self.inst('<view>', [('kind', tn[5:]), ('dict', ds[0])])
+        elif tn == 'TType' and t.__module__.startswith('glom'):
+            a = self.open(v)
+            ops = v.__ops__
+            # the `__ops__` tuple, its root by name
+            b = len(self.cells)
+            self.cells.append(None)
+            root = repr(ops[0]) if len(repr(ops[0])) == 1 else '?'
+            items = [{'sent': root}]
+            for i in range(1, len(ops)):
+                items.append(self.val(ops[i]))
+            self.cells[b] = {'k': 'tuple', 'c': 'tuple', 'v': items}
+            self.cells[a] = {'k': 'inst', 'c': 'TType', 'v': [['ops', {'r': b}]]}
+        elif tn == 'Spec' and t.__module__.startswith('glom'):
+            a = self.open(v)
+            self.cells[a] = self.inst('Spec', [('spec', v.spec)])
+        elif tn == 'Val' and t.__module__.startswith('glom'):
+            a = self.open(v)
+            self.cells[a] = self.inst('Val', [('value', v.value)])
+        elif isinstance(v, INST_TYPES):
+            a = self.open(v)
+            self.cells[a] = self.inst(tn, list(v.__dict__.items()))
+        else:
+            return None
+        return a
+
+    def inst(self, cls, attrs):
+        return {'k': 'inst', 'c': cls, 'v': [[n, self.val(x)] for n, x in attrs]}
+
+
+def obs_graph(roots):
+    g = GEnc(unshare=True)
+    rs = [g.val(r) for r in roots]
+    return {'roots': rs, 'cells': g.cells}
+
+
+# ---------------------------------------------------------------- building the world of a case
+def follow(root, path):
+    cur = root
+    for kind, k in path:
+        if kind == 'a':
+            cur = cur.__dict__[k]
+        elif kind == 'i':
+            cur = cur[k]
+        else:
+            cur = cur[dec(k)]
+    return cur
+
+
+def build_world(case):
+    """(target, literal objects): fresh objects, decoded from the trees of the case, then the
+    `edits` applied in order — [[root, path], step, [root, path]]: the member `step` of the
+    container at the first place becomes THE OBJECT at the second place (root: "T" the target,
+    ["L", i] literal object i): objects reachable by several paths, cycles"""
+    target = dec(case['target'])
+    lits = Lits(dec(x) for x in case.get('lits', []))
+    lits.shared = case.get('shared', [])
+
+    def root_of(r):
+        return target if r == 'T' else lits[r[1]]
+    for (r1, p1), (kind, k), (r2, p2) in case.get('edits', []):
+        cont = follow(root_of(r1), p1)
+        src = follow(root_of(r2), p2)
+        if kind == 'a':
+            cont.__dict__[k] = src
+        elif kind == 'i':
+            cont[k] = src
+        elif kind == 'app':
+            cont.append(src)
+        else:
+            cont[dec(k)] = src
+    return target, lits
 
 
 # ---------------------------------------------------------------- the chain applied directly in Python
@@ -281,102 +741,180 @@ def apply_op(d, cur, av):
     return BIN[d](cur, av)
 
 
-def direct_arg(e, target):
+def build_dict(pairs):
+    out = {}                  # a dict display: key, value, insert — entry by entry
+    for kk, vv in pairs:
+        kk, vv = kk(), vv()
+        try:
+            out[kk] = vv
+        except Exception as ex:
+            raise DirectFail({'raised': type(ex).__name__})
+    return out
+
+
+def build_set(ctor, items):
+    try:
+        return ctor(items)    # every member first, then the set is built (hashing them)
+    except Exception as ex:
+        raise DirectFail({'raised': type(ex).__name__})
+
+
+class Lits(list):
+    """the literal heap objects of one world, plus the shared argument expressions of the case"""
+    shared = ()
+
+
+def direct_arg(e, target, lits=()):
     if 'lit' in e:
         return dec(e['lit'])
+    if 'hl' in e:
+        return lits[e['hl']]      # the very object
+    if 'sh' in e:
+        # a shared argument OBJECT of the expression: evaluated whenever an operation that uses it is reached
+        return direct_arg(lits.shared[e['sh']], target, lits)
     if 'T' in e:
-        return direct_chain(e['T'], target)
+        return direct_chain(e['T'], target, lits)
     if 'Spec' in e:
-        return direct_arg(e['Spec'], target)
+        return direct_arg(e['Spec'], target, lits)
     if 'list' in e:
-        return [direct_arg(x, target) for x in e['list']]
+        return [direct_arg(x, target, lits) for x in e['list']]
     if 'tuple' in e:
-        return tuple(direct_arg(x, target) for x in e['tuple'])
+        return tuple(direct_arg(x, target, lits) for x in e['tuple'])
+    if 'set' in e:
+        return build_set(set, [direct_arg(x, target, lits) for x in e['set']])
+    if 'fset' in e:
+        return build_set(frozenset, [direct_arg(x, target, lits) for x in e['fset']])
     if 'dict' in e:
-        out = {}                  # a dict display: key, value, insert — entry by entry
-        for k, v in e['dict']:
-            kk, vv = direct_arg(k, target), direct_arg(v, target)
-            try:
-                out[kk] = vv
-            except Exception as ex:
-                raise DirectFail({'raised': type(ex).__name__})
-        return out
+        return build_dict([((lambda k=k: direct_arg(k, target, lits)), (lambda v=v: direct_arg(v, target, lits)))
+                           for k, v in e['dict']])
     if 'call' in e:
-        return ([direct_arg(x, target) for x in e['call']['args']],
-                {k: direct_arg(x, target) for k, x in e['call']['kwargs']})
+        return ([direct_arg(x, target, lits) for x in e['call']['args']],
+                {k: direct_arg(x, target, lits) for k, x in e['call']['kwargs']})
     raise ValueError(e)
 
 
-def direct_chain(steps, target):
+def obj_arg(a, target, cache=None):
+    """the reference `arg_val` on a real argument object (of a T expression stored as data): a T / Spec(T)
+    is evaluated against the target, an exact list / tuple / dict / set is rebuilt member by member (a list /
+    dict that contains itself: once, as glom documents — "can contain themselves"), everything else is the
+    object itself"""
+    from glom import Spec
+    if cache is None:
+        cache = {}
+    t = type(a)
+    if t.__name__ == 'TType':
+        return chain_of_ops(a.__ops__, target)
+    if t is Spec and type(a.spec).__name__ == 'TType':
+        return chain_of_ops(a.spec.__ops__, target)
+    if t is list:
+        if id(a) in cache:
+            return cache[id(a)]
+        res = cache[id(a)] = []
+        res.extend([obj_arg(x, target, cache) for x in a])
+        return res
+    if t is tuple:
+        return tuple(obj_arg(x, target, cache) for x in a)
+    if t is set or t is frozenset:
+        return build_set(t, [obj_arg(x, target, cache) for x in a])
+    if t is dict:
+        if id(a) in cache:
+            return cache[id(a)]
+        res = cache[id(a)] = {}
+        res.update(build_dict([((lambda k=k: obj_arg(k, target, cache)), (lambda v=v: obj_arg(v, target, cache)))
+                               for k, v in a.items()]))
+        return res
+    if t.__name__ == 'Val' and t.__module__.startswith('glom'):
+        return a.value
+    return a
+
+
+def reval(cur, target):
+    """what happens to the CALLEE of a call before its arguments are evaluated (reference `arg_val` over
+    the callee): a glom T expression / Spec(T…) / Val found in the target's data and used as callee is
+    evaluated against the target (an exact list / tuple / dict / set is rebuilt, evaluating the spec objects
+    in it); a failure in there is the failure of that evaluation; any other object is returned as it is"""
+    try:
+        return obj_arg(cur, target)
+    except DirectFail as f:
+        raise DirectFail({'callee': f.obs})
+
+
+def one_step(k, d, cur, target, argf):
+    """operation number k: for a call the callee first, then the argument, then the operation"""
+    if d == '__call__':
+        cur = reval(cur, target)
+    av = None if d in UNARY else argf()
+    try:
+        return apply_op(d, cur, av)
+    except Exception as ex:
+        raise DirectFail({'fail': {'k': k, 'kind': KIND[d], 'exc': type(ex).__name__}})
+
+
+def chain_of_ops(ops, target):
+    """the chain a stored T object records, applied directly"""
+    cd = char_dunder()
+    if repr(ops[0]) != 'T':
+        raise DirectFail({'raised': '<unsupported root>'})
+    cur = target
+    for k in range((len(ops) - 1) // 2):
+        d = cd[ops[1 + 2 * k]]
+        a = ops[2 + 2 * k]
+        if d == '__call__':
+            argf = lambda a=a: ([obj_arg(x, target) for x in a[0]], {n: obj_arg(x, target) for n, x in a[1].items()})
+        else:
+            argf = lambda a=a: obj_arg(a, target)
+        cur = one_step(k, d, cur, target, argf)
+    return cur
+
+
+def direct_chain(steps, target, lits=()):
     cur = target
     for k, (d, a) in enumerate(steps):
         # the argument is evaluated now — after the operations before it —, against the ORIGINAL
         # target object in its current state
-        av = None if d in UNARY else direct_arg(a, target)
-        try:
-            cur = apply_op(d, cur, av)
-        except Exception as ex:
-            raise DirectFail({'fail': {'k': k, 'kind': KIND[d], 'exc': type(ex).__name__}})
+        cur = one_step(k, d, cur, target, lambda a=a: direct_arg(a, target, lits))
     return cur
 
 
-def direct_obs(expr, target):
+def direct_obs(expr, target, lits=()):
     """(observation, the result object or None)"""
     try:
-        res = direct_chain(expr['T'], target)
-        return {'ok': enc(res)}, res
+        res = direct_chain(expr['T'], target, lits)
+        return {'ok': obs_graph([res, target] + list(lits))}, res
     except DirectFail as f:
         return f.obs, None
 
 
-def alias_path(root, x):
-    """where the very object `x` (identity) sits in `root`: the first access path, depth-first in
-    container order, as a PV list of dict keys / indices / attribute names; None when `x` is not
-    a list / dict / attribute object or is not reachable"""
-    if type(x) not in (list, dict, pyobjs.Obj, pyobjs.Obj2):
-        return None
-    seen = set()
-
-    def walk(v, path):
-        if v is x:
-            return path
-        if type(v) not in (list, tuple, dict, pyobjs.Obj, pyobjs.Obj2) or id(v) in seen:
-            return None
-        seen.add(id(v))
-        if type(v) is dict:
-            kids = [(enc(k), c) for k, c in v.items()]
-        elif type(v) in (list, tuple):
-            kids = [({'i': i}, c) for i, c in enumerate(v)]
-        else:
-            kids = [({'s': k}, c) for k, c in v.__dict__.items()]
-        for step, c in kids:
-            p = walk(c, path + [step])
-            if p is not None:
-                return p
-        return None
-    p = walk(root, [])
-    return None if p is None else {'l': p}
-
-
 # ---------------------------------------------------------------- building the real T expression
-def build_arg(e):
+def build_arg(e, lits=()):
     from glom import Spec
     if 'lit' in e:
         return dec(e['lit'])
+    if 'hl' in e:
+        return lits[e['hl']]
+    if 'sh' in e:
+        built = lits.__dict__.setdefault('built', {})
+        if e['sh'] not in built:
+            built[e['sh']] = build_arg(lits.shared[e['sh']], lits)
+        return built[e['sh']]      # the SAME object at every use
     if 'T' in e:
-        return build_t(e['T'])
+        return build_t(e['T'], lits)
     if 'Spec' in e:
-        return Spec(build_arg(e['Spec']))
+        return Spec(build_arg(e['Spec'], lits))
     if 'list' in e:
-        return [build_arg(x) for x in e['list']]
+        return [build_arg(x, lits) for x in e['list']]
     if 'tuple' in e:
-        return tuple(build_arg(x) for x in e['tuple'])
+        return tuple(build_arg(x, lits) for x in e['tuple'])
+    if 'set' in e:
+        return {build_arg(x, lits) for x in e['set']}
+    if 'fset' in e:
+        return frozenset(build_arg(x, lits) for x in e['fset'])
     if 'dict' in e:
-        return {build_arg(k): build_arg(v) for k, v in e['dict']}
+        return {build_arg(k, lits): build_arg(v, lits) for k, v in e['dict']}
     raise ValueError(e)
 
 
-def build_t(steps):
+def build_t(steps, lits=()):
     """write the expression the way a user does: with Python's operators on T"""
     from glom import T
     t = T
@@ -384,16 +922,16 @@ def build_t(steps):
         if d == '__getattr__':
             t = getattr(t, dec(a['lit']))
         elif d == '__getitem__':
-            t = t[build_arg(a)]
+            t = t[build_arg(a, lits)]
         elif d == '__call__':
-            t = t(*[build_arg(x) for x in a['call']['args']],
-                  **{k: build_arg(x) for k, x in a['call']['kwargs']})
+            t = t(*[build_arg(x, lits) for x in a['call']['args']],
+                  **{k: build_arg(x, lits) for k, x in a['call']['kwargs']})
         elif d == '__invert__':
             t = ~t
         elif d == '__neg__':
             t = -t
         else:
-            t = BIN[d](t, build_arg(a))
+            t = BIN[d](t, build_arg(a, lits))
     return t
 
 
@@ -404,19 +942,28 @@ def exc_name(e):
     return type(e).__name__
 
 
+OBS_KEYS = ('impl', 'direct', 'impl_after', 'direct_after', 'g_heap', 'g_target', 'g_lits')
+
+
 def run_impl(case):
     import glom
     from glom import GlomError, PathAccessError
-    out = {k: v for k, v in case.items() if k not in ('impl', 'direct', 'impl_after', 'direct_after', 'impl_alias', 'direct_alias')}
-    target = dec(case['target'])
+    out = {k: v for k, v in case.items() if k not in OBS_KEYS}
+    target, lits = build_world(case)
+    # the object graph as it is before the evaluation: what the Lean side starts from
+    g = GEnc()
+    out['g_target'] = g.val(target)
+    out['g_lits'] = [g.val(x) for x in lits]
+    out['g_heap'] = g.cells
     if case.get('prebuild'):
         # a twin expression (equal-but-differently-typed literal at one position) written first in
         # the same process: what `T…` records for the second must not depend on the first
         try:
-            glom.glom(dec(case['target']), build_t(case['prebuild']['T']))
+            pt, pl = build_world(case)
+            glom.glom(pt, build_t(case['prebuild']['T'], pl))
         except Exception:
             pass
-    spec = build_t(case['expr']['T'])
+    spec = build_t(case['expr']['T'], lits)
     res = None
     try:
         res = glom.glom(target, spec)
@@ -426,14 +973,14 @@ def run_impl(case):
     except Exception as e:
         out['impl'] = {'other': exc_name(e)}
     else:
-        out['impl'] = {'ok': enc(res)}
-    out['impl_after'] = enc(target)          # what the recorded calls did to the target object
-    out['impl_alias'] = alias_path(target, res)     # is the result one of the target's own objects?
-    # the same chain, applied directly with Python's own operators to a fresh copy of the target
-    fresh = dec(case['target'])
-    out['direct'], dres = direct_obs(case['expr'], fresh)
-    out['direct_after'] = enc(fresh)
-    out['direct_alias'] = alias_path(fresh, dres)
+        # the graph reachable from [result, target, literal objects]: value, identity of the result,
+        # and what the recorded calls did to the target and to the literal objects
+        out['impl'] = {'ok': obs_graph([res, target] + lits)}
+    out['impl_after'] = obs_graph([target, target] + lits)
+    # the same chain, applied directly with Python's own operators to a fresh copy of the world
+    t2, l2 = build_world(case)
+    out['direct'], dres = direct_obs(case['expr'], t2, l2)
+    out['direct_after'] = obs_graph([t2, t2] + l2)
     return out
 
 
@@ -506,6 +1053,34 @@ def gen_target(r):
         root[fn] = FUNCS[fn]
     if r.random() < 0.35:
         root[r.choice(RAISERS)] = FUNCS[r.choice(RAISERS)]
+    # objects of the wider data model (each with some probability, so that most targets stay small)
+    if r.random() < 0.3:
+        root['p'] = Probe(last=None)
+    if r.random() < 0.3:
+        root['cells'] = {(1, 2): r.choice(STRS), (0, 0): r.choice(INTS), 'k': [1, 2]}
+    if r.random() < 0.3:
+        root['pt'] = r.choice([Point(r.choice(INTS), r.choice(STRS)), Pair(1, [2, 3])])
+        root['col'] = r.choice([MyList, lambda v: Column('c', v)])([r.choice(INTS) for _ in range(r.choice([0, 2, 3]))])
+        root['od'] = r.choice([collections.OrderedDict, lambda d: Bag('t', d), collections.Counter,
+                               lambda d: collections.defaultdict(const7, d)])({'a': 1, 'b': r.choice(INTS[:8])})
+    if r.random() < 0.25:
+        root['st'] = r.choice([{1, 2, 3}, {'a', 'b'}, set(), {1, 'a', None}, {0, True}])
+        root['fs'] = r.choice([frozenset([1, 2]), frozenset(), frozenset(['a', 3])])
+    if r.random() < 0.25:
+        root['po'] = PropObj(a=r.choice(INTS), b=r.choice(STRS))
+        root['dy'] = DynObj(a=r.choice(INTS), dyn_a=1)
+        root['de'] = DescObj(a=r.choice(INTS), nd=r.choice(STRS)) if r.random() < 0.5 else DescObj(a=[1, 2])
+    if r.random() < 0.2:
+        for fn in ('list', 'tuple'):
+            root[fn] = XFUNCS[fn]
+    if r.random() < 0.15:
+        # glom spec objects stored as DATA (as arguments they come back as they are; as CALLEE they are
+        # passed through arg_val: evaluated against the target)
+        from glom import T, Spec
+        root['g'] = r.choice([T['ident'], T['o'].f, Spec(T['ident']), T['mklist'], T['zz'], T['n'], T['o'].zz,
+                              T['d']['a'], T['l'].pop, T['l'].append])
+        root.setdefault('ident', ident)
+        root.setdefault('mklist', mklist)
     if p < 0.3:
         return pyobjs.Obj(**{k: v for k, v in root.items()})
     if p < 0.4:
@@ -513,21 +1088,87 @@ def gen_target(r):
     return root
 
 
+def container_paths(target, maxdepth=3):
+    """[(path, object)] of the objects of the target that have identity, by a path of edit steps"""
+    out = []
+
+    def walk(v, path, depth):
+        if isinstance(v, (list, dict, set)) or type(v) in (pyobjs.Obj, pyobjs.Obj2):
+            out.append((path, v))
+        if depth >= maxdepth:
+            return
+        if isinstance(v, dict) and type(v) is not collections.defaultdict:
+            for k, x in list(dict.items(v)):
+                if type(k) in (int, str):
+                    walk(x, path + [['k', enc(k)]], depth + 1)
+        elif isinstance(v, (list, tuple)):
+            for i, x in enumerate(v[:5]):
+                walk(x, path + [['i', i]], depth + 1)
+        elif type(v) in (pyobjs.Obj, pyobjs.Obj2):
+            for k, x in v.__dict__.items():
+                walk(x, path + [['a', k]], depth + 1)
+    walk(target, [], 0)
+    return out
+
+
+def share_edits(r, target, n=None):
+    """make the target a GRAPH: the member of a container becomes an object the target already has
+    somewhere else — an object reachable by two paths, or (the source is an ancestor) a cycle.  The edits
+    are applied to `target` and returned (build_world replays them)."""
+    edits = []
+    for _ in range(n if n is not None else r.choice([1, 1, 2])):
+        cps = container_paths(target)
+        conts = [(p, c) for p, c in cps if isinstance(c, (list, dict)) or type(c) in (pyobjs.Obj, pyobjs.Obj2)]
+        if not conts or not cps:
+            break
+        cp, cont = r.choice(conts)
+        sp, src = r.choice(cps)
+        if isinstance(cont, list):
+            if cont and r.random() < 0.5:
+                step = ['i', r.randrange(len(cont))]
+                cont[step[1]] = src
+            else:
+                step = ['app', None]
+                cont.append(src)
+        elif isinstance(cont, dict):
+            k = r.choice([k for k in cont if type(k) in (int, str)] + ['sh', 'sh'])
+            step = ['k', enc(k)]
+            cont[k] = src
+        else:
+            k = r.choice(list(cont.__dict__) + ['sh', 'sh'])
+            step = ['a', k]
+            cont.__dict__[k] = src
+        edits.append([['T', cp], step, ['T', sp]])
+    return edits
+
+
+def gen_world(r, share_p=0.25):
+    """(target object, its tree as generated, the sharing edits applied to it afterwards)"""
+    target = gen_target(r)
+    tj = enc(target)
+    edits = share_edits(r, target) if r.random() < share_p else []
+    return target, tj, edits
+
+
 def sources(target, maxdepth=3):
-    """[(steps, value)] for the access paths of the target (getitem / getattr only)"""
+    """[(steps, value)] for the access paths of the target (getitem / getattr only); the target may be any
+    graph (sharing, cycles): the depth is bounded"""
     out = []
 
     def walk(v, steps, depth):
         out.append((steps, v))
         if depth >= maxdepth:
             return
-        if type(v) is dict:
-            for k, x in v.items():
-                walk(x, steps + [['__getitem__', lit(k)]], depth + 1)
-        elif type(v) in (list, tuple):
+        if isinstance(v, dict):
+            if type(v) is collections.defaultdict:
+                return
+            for k, x in list(dict.items(v)):
+                if type(k) in (int, str, bool, tuple, type(None)):
+                    walk(x, steps + [['__getitem__', lit(k)]], depth + 1)
+        elif isinstance(v, (list, tuple)):
             for i, x in enumerate(v[:4]):
                 walk(x, steps + [['__getitem__', lit(i)]], depth + 1)
-        elif type(v) in (pyobjs.Obj, pyobjs.Obj2):
+        elif type(v) in (pyobjs.Obj, pyobjs.Obj2, Probe):
             for k, x in v.__dict__.items():
                 walk(x, steps + [['__getattr__', lit(k)]], depth + 1)
     walk(target, [], 0)
@@ -550,13 +1191,60 @@ def is_finite(v):
     return isinstance(v, int) or (isinstance(v, float) and v == v and abs(v) != float('inf'))
 
 
+def sub_variant(r, v):
+    """an instance of a container SUBCLASS with the content of the exact list / tuple / dict `v`
+    (None when no catalogue class fits)"""
+    if type(v) is list:
+        return r.choice([MyList(v), Column('c', v)])
+    if type(v) is tuple:
+        if len(v) == 2:
+            return r.choice([Point(*v), Pair(*v)])
+        return None
+    if type(v) is dict:
+        opts = [collections.OrderedDict(v), Bag('t', v), collections.defaultdict(const7, v)]
+        if all(type(x) is int for x in v.values()):
+            opts.append(collections.Counter(v))
+        return r.choice(opts)
+    return None
+
+
 class Gen:
-    def __init__(self, r, target, nested_p=0.3):
+    def __init__(self, r, target, nested_p=0.3, sub_p=0.12):
         self.r = r
         self.target = target
         self.src = sources(target)
         self.nested_p = nested_p
+        self.sub_p = sub_p           # probability that a container literal is an instance of a subclass
         self.nested_used = False
+        self.lits = Lits()           # the literal heap objects of the expression (the generator's own)
+        self.lits.shared = []        # shared argument expressions ({"sh": i})
+        self.lit_encs = []           # … as they were when they were written
+
+    def hlit(self, obj):
+        """the literal `obj` as ONE object of the expression: {"hl": i}"""
+        self.lits.append(obj)
+        self.lit_encs.append(enc(obj))
+        return {'hl': len(self.lits) - 1}
+
+    def value(self, e):
+        """the value of an argument expression now (the generator applies every step for real)"""
+        return direct_arg(e, self.target, self.lits)
+
+    def case(self, tj, steps, **extra):
+        c = {'target': tj, 'expr': {'T': steps}}
+        if getattr(self, 'edits', None):
+            c['edits'] = self.edits
+        if self.lit_encs:
+            c['lits'] = list(self.lit_encs)
+        if self.lits.shared:
+            c['shared'] = list(self.lits.shared)
+        c.update(extra)
+        return c
+
+    def share(self, e):
+        """the argument expression `e` as ONE object of the spec, usable at several places: {"sh": i}"""
+        self.lits.shared.append(e)
+        return {'sh': len(self.lits.shared) - 1}
 
     def arg(self, pred, literal):
         """an argument expression whose value satisfies `pred`: a nested T / Spec(T) over the
@@ -575,14 +1263,37 @@ class Gen:
 
     def container(self, v):
         """encode a literal; list / tuple / dict literals are spelled structurally and may
-        get one member replaced by a nested T with the same value"""
+        get one member replaced by a nested T with the same value — or (probability sub_p) the literal
+        is an instance of a container SUBCLASS with that content: one object of the expression, passed
+        through literally, whatever it contains (sometimes a T object: it stays unevaluated)"""
         r = self.r
+        if is_heap_literal(v):
+            return self.hlit(v)
+        if type(v) in (list, tuple, dict) and r.random() < self.sub_p:
+            w = v
+            if r.random() < 0.2 and v:
+                from glom import T
+                t = r.choice([T['n'], T['l'], T['zz'], T])
+                if type(v) is list:
+                    w = [t] + v[1:]
+                elif type(v) is tuple:
+                    w = (v[0], t) if len(v) == 2 else v
+                else:
+                    w = dict(v)
+                    w[next(iter(w))] = t
+            sv = sub_variant(r, w)
+            if sv is not None:
+                return self.hlit(sv)
         if type(v) is list:
             return {'list': [self.member(x) for x in v]}
         if type(v) is tuple:
             return {'tuple': [self.member(x) for x in v]}
         if type(v) is dict:
             return {'dict': [[self.member(k, key=True), self.member(x)] for k, x in v.items()]}
+        if type(v) is set:
+            return {'set': [self.member(x, key=True) for x in sorted(v, key=set_key)]}
+        if type(v) is frozenset:
+            return {'fset': [self.member(x, key=True) for x in sorted(v, key=set_key)]}
         return lit(v)
 
     def member(self, x, key=False):
@@ -599,34 +1310,62 @@ class Gen:
     def step(self, cur):
         r = self.r
         opts = []
-        if type(cur) is dict:
+        if isinstance(cur, dict):
             if cur:
                 opts += ['key'] * 6 + (['dpop'] if STATEFUL else [])
             opts += ['get', 'dor'] + (['dsetdefault'] if STATEFUL else [])
-        elif type(cur) in (list, tuple):
+            if type(cur) is dict:
+                opts += ['dview']
+        elif isinstance(cur, (list, tuple)):
             if cur:
                 opts += ['idx'] * 4 + ['scount', 'sindex']
-                if type(cur) is list and STATEFUL:
+                if isinstance(cur, list) and STATEFUL:
                     opts += ['lpop'] * 2
-            if type(cur) is list and STATEFUL:
+            if isinstance(cur, list) and STATEFUL:
                 opts += ['lappend']
             opts += ['slice'] * 2 + ['sadd', 'smul']
+            if type(cur) is Point:
+                opts += ['ntfield'] * 3
         elif type(cur) is str:
             if cur:
                 opts += ['idx'] * 2
-            opts += ['slice', 'stradd', 'smul', 'upper', 'strcount', 'startswith']
+            opts += ['slice', 'stradd', 'smul', 'upper', 'strcount', 'startswith'] + ['strmeth'] * 3
         elif isinstance(cur, bool):
             opts += ['arith'] * 3 + ['bit'] * 3 + ['unary'] + ['npow', 'ifloat']
         elif isinstance(cur, int):
             opts += ['arith'] * 6 + ['bit'] * 2 + ['unary'] * 2 + ['pow'] + ['npow', 'ifloat']
         elif isinstance(cur, float):
             opts += ['farith'] * 3 + ['fneg'] + ['ffloor', 'fpow']
+        elif type(cur) is Probe:
+            opts += ['probe_item'] * 2 + ['probe_op'] * 2 + ['attr']
+        elif type(cur) is PropObj:
+            opts += ['attr', 'prop', 'prop']
+        elif type(cur) is DynObj:
+            opts += ['attr', 'dyn', 'dyn']
+        elif type(cur) is DescObj:
+            opts += ['attr', 'desc', 'desc']
         elif type(cur) in (pyobjs.Obj, pyobjs.Obj2):
             opts += ['attr']
+        elif isinstance(cur, (set, frozenset)):
+            opts += ['setop'] * 3 + ['setmeth']
         elif id(cur) in FUNC_NAME:
             opts += ['callfn']
         elif type(cur).__name__ == 'builtin_function_or_method':
             opts += ['callmeth']
+        elif type(cur).__name__ in ('dict_keys', 'dict_values', 'dict_items'):
+            return None
+        elif type(cur).__name__ in ('TType', 'Spec') and type(cur).__module__.startswith('glom'):
+            # a glom spec object found in the target, used as CALLEE: glom passes it through arg_val
+            # (evaluates it against the target) before the arguments are evaluated
+            try:
+                f = reval(cur, self.target)
+            except DirectFail:
+                f = None
+            if id(f) in FUNC_NAME:
+                return ['__call__', self.call_args(FUNC_NAME[id(f)])]
+            if type(f).__name__ == 'builtin_function_or_method':
+                return ['__call__', self.meth_args(f)]
+            return ['__call__', {'call': {'args': [self.anyval()] if r.random() < 0.7 else [], 'kwargs': []}}]
         if not opts:
             return None
         o = r.choice(opts)
@@ -636,6 +1375,37 @@ class Gen:
             return ['__getattr__', lit('append')]
         if o == 'dsetdefault':
             return ['__getattr__', lit('setdefault')]
+        if o == 'ntfield':
+            return ['__getattr__', lit(r.choice(['x', 'y']))]
+        if o in ('probe_item', 'probe_op'):
+            # the probe returns its argument ITSELF: a container literal (often an instance of a subclass),
+            # a scalar, or a nested T reading an object of the target
+            v = r.choice([[1, 2], (1, 2), {'a': 1}, [], (3, 4), {'k': 2, 'j': 3}, gen_scalar(r)])
+            save, self.sub_p = self.sub_p, 0.7
+            a = self.arg(lambda w: isinstance(w, (list, dict, INST_TYPES)), v)
+            self.sub_p = save
+            if o == 'probe_item':
+                return ['__getitem__', a]
+            return [r.choice(list(BIN)), a]
+        if o == 'prop':
+            return ['__getattr__', lit('p_ok')]
+        if o == 'dyn':
+            return ['__getattr__', lit(r.choice(['dyn_abc', 'dyn_', 'dyn_x y']))]
+        if o == 'desc':
+            return ['__getattr__', lit(r.choice(['d', 'nd']))]
+        if o == 'dview':
+            return ['__getattr__', lit(r.choice(['keys', 'values', 'items']))]
+        if o == 'strmeth':
+            return ['__getattr__', lit(r.choice(['lower', 'strip', 'lstrip', 'rstrip', 'split', 'join', 'replace',
+                                                 'find', 'endswith', 'isdigit', 'capitalize']))]
+        if o == 'setop':
+            other = r.choice([{1, 2}, {'a'}, set(), {1, 'a', None}, frozenset([2, 3]), frozenset()])
+            return [r.choice(['__and__', '__or__', '__xor__', '__sub__']),
+                    self.arg(lambda w: type(w) in (set, frozenset), other)]
+        if o == 'setmeth':
+            if type(cur) is set and STATEFUL:
+                return ['__getattr__', lit(r.choice(['add', 'discard', 'union']))]
+            return ['__getattr__', lit('union')]
         if o == 'key':
             k = r.choice(list(cur))
             return ['__getitem__', self.arg(lambda v: type(v) is type(k) and v == k, k)]
@@ -652,13 +1422,17 @@ class Gen:
                 i -= n
             return ['__getitem__', self.arg(lambda v: is_int(v) and -n <= v < n, i)]
         if o == 'slice':
-            f = lambda: r.choice([None, None, 0, 1, 2, 3, -1, -2, -5, 7])
-            st = r.choice([None, None, None, 1, 2, -1, -2, 3])
+            # every kind of bound: absent, inside, at / beyond either end, far out, bools; every kind of step
+            n = len(cur)
+            f = lambda: r.choice([None, None, 0, 1, 2, 3, -1, -2, -5, 7, n, n - 1, -n, -n - 1, n + 1, True, False,
+                                  10 ** 20, -(10 ** 20)])
+            st = r.choice([None, None, None, 1, 2, -1, -2, 3, -3, True, n or 1, -(n or 1), 10 ** 20, -(10 ** 20)])
             return ['__getitem__', lit(slice(f(), f(), st))]
         if o == 'sadd':
-            extra = [gen_scalar(r) for _ in range(r.choice([0, 1, 2]))]
-            extra = extra if type(cur) is list else tuple(extra)
-            return ['__add__', self.arg(lambda v: type(v) is type(cur) and len(v) < 6, extra)]
+            extra = [gen_scalar(r) for _ in range(r.choice([0, 1, 2, 2]))]
+            base = list if isinstance(cur, list) else tuple
+            extra = base(extra)
+            return ['__add__', self.arg(lambda v: isinstance(v, base) and len(v) < 6, extra)]
         if o == 'smul':
             return ['__mul__', self.arg(lambda v: is_int(v) and -1 <= v <= 3, r.choice([0, 1, 2, 3, -1, True]))]
         if o in ('scount', 'sindex'):
@@ -749,8 +1523,16 @@ class Gen:
             s = lambda: self.arg(lambda v: type(v) is str and len(v) < 12, r.choice(STRS))
             return {'call': {'args': [s()], 'kwargs': [['b', s()]]}}
         if name == 'ident':
-            v = r.choice([gen_scalar(r), [1, 2], (1,), {'a': 1}, (), []])
+            v = r.choice([gen_scalar(r), [1, 2], (1,), {'a': 1}, (), [], (1, 2), {'k': 1, 'j': 2}])
+            if r.random() < 0.25:
+                return {'call': {'args': [], 'kwargs': [['x', self.arg(lambda v: True, v)]]}}
             return {'call': {'args': [self.arg(lambda v: True, v)], 'kwargs': []}}
+        if name in ('list', 'tuple'):
+            v = r.choice(['abc', [1, 2], (), {'a': 1}, '', (1, 2), {1, 2}])
+            if r.random() < 0.15:
+                return {'call': {'args': [], 'kwargs': []}}
+            return {'call': {'args': [self.arg(lambda v: type(v) in (str, list, tuple, dict, set, frozenset)
+                                               or type(v).__name__.startswith('dict_'), v)], 'kwargs': []}}
         if name == 'kw':
             q = r.random()
             if q < 0.3:
@@ -761,60 +1543,87 @@ class Gen:
                 return {'call': {'args': [ai(), ai()], 'kwargs': []}}
             return {'call': {'args': [], 'kwargs': [['b', ai()], ['a', ai()]]}}
         if name == 'mklist':
-            return {'call': {'args': [self.arg(lambda v: True, gen_scalar(r))
-                                      for _ in range(r.choice([0, 1, 2, 3]))], 'kwargs': []}}
+            return {'call': {'args': [self.anyval() for _ in range(r.choice([0, 1, 2, 3]))], 'kwargs': []}}
         if name == 'const7':
             return {'call': {'args': [], 'kwargs': []}}
         if name == 'len':
-            v = r.choice(['abc', [1, 2], (), {'a': 1}, ''])
-            return {'call': {'args': [self.arg(lambda v: type(v) in (str, list, tuple, dict), v)],
+            v = r.choice(['abc', [1, 2], (), {'a': 1}, '', (1, 2)])
+            return {'call': {'args': [self.arg(lambda v: isinstance(v, (str, list, tuple, dict, set, frozenset)), v)],
                              'kwargs': []}}
         # raisers: any arguments
         return {'call': {'args': [lit(r.choice(INTS))] if r.random() < 0.5 else [], 'kwargs': []}}
 
+    def anyval(self):
+        """any argument: a scalar, or a container literal (sometimes an instance of a subclass), or a nested T"""
+        r = self.r
+        v = r.choice([gen_scalar(r), gen_scalar(r), [1, 2], (1, 2), {'a': 1}, [], (), (0, 0),
+                      FUNCS[r.choice(['len', 'ident', 'const7'])], {1, 2}, frozenset(['a'])])
+        return self.arg(lambda w: True, v)
+
     def meth_args(self, m):
         r = self.r
         slf, name = m.__self__, m.__name__
-        if name == 'upper':
-            return {'call': {'args': [], 'kwargs': []}}
-        if name == 'pop' and type(slf) is list:
+        call = lambda *a: {'call': {'args': list(a), 'kwargs': []}}
+        if name in ('upper', 'lower', 'strip', 'lstrip', 'rstrip', 'isdigit', 'capitalize', 'keys', 'values', 'items'):
+            return call()
+        if name == 'split':
+            q = r.random()
+            if q < 0.4:
+                return call()
+            return call(self.arg(lambda v: type(v) is str and 0 < len(v) < 4, r.choice([' ', 'a', '.', 'b', 'll', ''])))
+        if name == 'join':
+            parts = [r.choice(STRS) for _ in range(r.choice([0, 1, 2, 3]))]
+            return call(self.arg(lambda v: isinstance(v, (list, tuple)) and all(type(x) is str for x in v),
+                                 r.choice([parts, tuple(parts)])))
+        if name == 'replace':
+            old = r.choice([slf[:1], slf[1:3], 'a', 'zz', ''])
+            return call(lit(old), self.arg(lambda v: type(v) is str and len(v) < 5, r.choice(['', 'X', 'ab'])))
+        if name == 'find':
+            return call(self.arg(lambda v: type(v) is str and len(v) < 5, r.choice([slf[:1], slf[1:3], 'zz', ''])))
+        if name == 'endswith':
+            return call(self.arg(lambda v: type(v) is str, r.choice([slf[-2:], 'a', ''])))
+        if name in ('add', 'discard'):
+            return call(self.arg(lambda v: type(v) in (int, str, bool), r.choice([1, 2, 'a', 'zz', True, None])))
+        if name == 'union':
+            return call(self.arg(lambda v: type(v) in (set, frozenset, list, tuple) and len(v) < 5,
+                                 r.choice([{1, 2}, [1, 'a'], (None,), frozenset([3]), []])))
+        if name == 'pop' and isinstance(slf, list):
             if not slf or r.random() < 0.6:
-                return {'call': {'args': [], 'kwargs': []}}
-            return {'call': {'args': [self.arg(lambda v: is_int(v) and -len(slf) <= v < len(slf),
-                                               r.randrange(len(slf)))], 'kwargs': []}}
+                return call()
+            return call(self.arg(lambda v: is_int(v) and -len(slf) <= v < len(slf), r.randrange(len(slf))))
         if name == 'append':
-            return {'call': {'args': [self.arg(lambda v: True, gen_scalar(r))], 'kwargs': []}}
-        if name == 'pop' and type(slf) is dict:
-            ks = [k for k in slf if type(k) in (int, str)] or ['zz']
+            return call(self.anyval())
+        if name == 'pop' and isinstance(slf, dict):
+            ks = [k for k in slf if type(k) in (int, str, tuple)] or ['zz']
             k = r.choice(ks)
             if r.random() < 0.3:
-                return {'call': {'args': [lit(r.choice([k, 'zz'])), lit(r.choice(INTS))], 'kwargs': []}}
-            return {'call': {'args': [self.arg(lambda v: type(v) is type(k) and v == k, k)], 'kwargs': []}}
+                return call(lit(r.choice([k, 'zz'])), lit(r.choice(INTS)))
+            return call(self.arg(lambda v: type(v) is type(k) and v == k, k))
         if name == 'setdefault':
             ks = [k for k in slf if type(k) in (int, str)] + ['zz', 'new']
-            return {'call': {'args': [lit(r.choice(ks)), self.arg(is_int, r.choice(INTS))], 'kwargs': []}}
+            if r.random() < 0.3:
+                return call(lit(r.choice(ks)), self.anyval())
+            return call(lit(r.choice(ks)), self.arg(is_int, r.choice(INTS)))
         if name in ('count', 'index') and type(slf) is str:
             sub = r.choice([slf[:1], slf[1:2], 'a', 'zz', '']) if name == 'count' else \
                 r.choice([slf[:1], slf[1:3], slf[:1], 'zz'])
-            return {'call': {'args': [self.arg(lambda v: type(v) is str and v in slf and len(v) < 5, sub)],
-                             'kwargs': []}}
+            return call(self.arg(lambda v: type(v) is str and v in slf and len(v) < 5, sub))
         if name == 'startswith':
-            return {'call': {'args': [self.arg(lambda v: type(v) is str, r.choice([slf[:2], 'a', '']))],
-                             'kwargs': []}}
+            return call(self.arg(lambda v: type(v) is str, r.choice([slf[:2], 'a', ''])))
         if name in ('count', 'index'):
             simple = [x for x in slf if type(x) in (int, str, bool, type(None))]
             if simple and (name == 'index' or r.random() < 0.8):
                 x = r.choice(simple)
             else:
                 x = r.choice([0, 'zz', None]) if name == 'count' else (simple[0] if simple else 0)
-            return {'call': {'args': [lit(x)], 'kwargs': []}}
+            return call(lit(x))
         if name == 'get':
-            ks = [k for k in slf if type(k) in (int, str)] + ['zz']
+            ks = [k for k in slf if type(k) in (int, str, tuple)] + ['zz']
             k = r.choice(ks)
             if r.random() < 0.4:
-                return {'call': {'args': [lit(k), self.arg(is_int, r.choice(INTS))], 'kwargs': []}}
-            return {'call': {'args': [self.arg(lambda v: type(v) is type(k) and v == k, k)], 'kwargs': []}}
-        return {'call': {'args': [], 'kwargs': []}}
+                return call(lit(k), self.arg(is_int, r.choice(INTS)))
+            return call(self.arg(lambda v: type(v) is type(k) and v == k, k))
+        return call()
 
     # ------------------------------------------------------------ failing arithmetic, by error class
     def arith_fail(self, cur, cls=None):
@@ -960,10 +1769,20 @@ class Gen:
                 (type(cur) in (str, list, tuple) and r.random() < 0.12):
             return self.arith_fail(cur)
         opts = ['zzattr', 'callraiser', 'nestedfail', 'unhashable']
-        if type(cur) is dict:
+        if isinstance(cur, dict):
             opts += ['zzkey'] * 3 + ['addint', 'neg', 'call0']
-        elif type(cur) in (list, tuple, str):
-            opts += ['oob'] * 3 + ['stridx', 'addint', 'neg', 'call0', 'step0', 'zzindex']
+        elif isinstance(cur, (list, tuple, str)):
+            opts += ['oob'] * 3 + ['stridx', 'addint', 'neg', 'call0', 'step0', 'zzindex', 'bigidx', 'badslice']
+        elif type(cur) is PropObj:
+            opts += ['propfail'] * 6 + ['item', 'call0']
+        elif type(cur) is DynObj:
+            opts += ['dynfail'] * 6 + ['item', 'call0']
+        elif type(cur) is DescObj:
+            opts += ['descfail'] * 4 + ['item', 'call0', 'zzattr']
+        elif isinstance(cur, (set, frozenset)):
+            opts += ['setbad'] * 4 + ['item', 'neg', 'call0']
+        elif type(cur).__name__ in ('dict_keys', 'dict_values', 'dict_items'):
+            opts += ['item', 'call0', 'zzattr', 'neg']
         elif isinstance(cur, int) and not isinstance(cur, float):
             opts += ['div0'] * 4 + ['addstr'] * 2 + ['item', 'call0', 'zeropow']
         elif isinstance(cur, float):
@@ -977,6 +1796,21 @@ class Gen:
         o = r.choice(opts)
         if o == 'zzattr':
             return ['__getattr__', lit('zz')]
+        if o == 'propfail':
+            # a property that raises: AttributeError is an access failure; any other class escapes as it is
+            return ['__getattr__', lit(r.choice(['p_attr', 'p_val', 'p_key', 'p_zero', 'p_attr']))]
+        if o == 'dynfail':
+            return ['__getattr__', lit(r.choice(['zz', 'boom', 'lookup', 'other']))]
+        if o == 'descfail':
+            return ['__getattr__', lit(r.choice(['dbad', 'dbad', 'zz']))]
+        if o == 'setbad':
+            return [r.choice(['__add__', '__mul__', '__or__', '__and__', '__sub__', '__truediv__', '__pow__']),
+                    self.arg(lambda v: type(v) in (list, int, dict, str), r.choice([[1], 2, {'a': 1}, 'x', (1,)]))]
+        if o == 'bigidx':
+            return ['__getitem__', lit(r.choice([2 ** 64, -(2 ** 70), 10 ** 30]))]
+        if o == 'badslice':
+            return ['__getitem__', lit(r.choice([slice('a', None, None), slice(None, 1.5, None), slice(None, None, 0),
+                                                 slice(0, 2, 'x'), slice(None, None, 0.5)]))]
         if o == 'zzkey':
             return ['__getitem__', lit(r.choice(['zz', 99, None, ('q',)]))]
         if o == 'oob':
@@ -996,7 +1830,7 @@ class Gen:
         if o == 'invert':
             return ['__invert__', lit(None)]
         if o == 'call0':
-            if r.random() < 0.6 and not has_sent(enc(cur)):
+            if r.random() < 0.6:
                 # a non-callable value called WITH arguments: they are evaluated (may fail, may change
                 # the target) before the call finds out that the value cannot be called
                 return ['__call__', self.nc_args()]
@@ -1057,14 +1891,18 @@ def too_big(v):
     return False
 
 
-def grow(r, target, n, nested_p=0.3, prefer=None):
-    """a valid chain of up to n steps with the values reached: (steps, [cur0, cur1, …], gen)"""
-    g = Gen(r, target, nested_p)
+def grow(r, target, n, nested_p=0.3, prefer=None, edits=None, g=None, start=()):
+    """a valid chain of up to n steps (behind the given `start` steps) with the values reached:
+    (steps, [cur0, cur1, …], gen, clean)"""
+    if g is None:
+        g = Gen(r, target, nested_p)
+        g.edits = edits or []
     cur = target
     steps, vals = [], [target]
-    for _ in range(n):
-        st = None
-        if prefer and r.random() < 0.5 and isinstance(cur, int):
+    todo = list(start)
+    for _ in range(n + len(todo)):
+        st = todo.pop(0) if todo else None
+        if st is None and prefer and r.random() < 0.5 and isinstance(cur, int):
             st = [r.choice(prefer), g.arg(lambda v: is_int(v) and v != 0 and abs(v) < 10 ** 9,
                                           r.choice([x for x in INTS if x != 0]))]
             if st[0] in UNARY:
@@ -1074,10 +1912,13 @@ def grow(r, target, n, nested_p=0.3, prefer=None):
         if st is None:
             break
         try:
-            av = None if st[0] in UNARY else direct_arg(st[1], target)
+            if st[0] == '__call__':
+                cur = reval(cur, target)
+            av = None if st[0] in UNARY else g.value(st[1])
             nxt = apply_op(st[0], cur, av)
         except Exception:
             steps.append(st)       # an unplanned failure is still a legitimate case; stop here
+            steps.extend(todo)
             vals.append(None)
             return steps, vals, g, False
         if too_big(nxt):
@@ -1090,10 +1931,101 @@ def grow(r, target, n, nested_p=0.3, prefer=None):
     return steps, vals, g, True
 
 
+SUB_MAKERS = [
+    ('Point', lambda r: Point(r.choice([1, 0]), r.choice([2, 0]))),
+    ('Pair', lambda r: Pair(r.choice([1, 0]), r.choice([2, 0, [5]]))),
+    ('Column', lambda r: Column('price', [r.choice(INTS) for _ in range(r.choice([0, 2, 3]))])),
+    ('MyList', lambda r: MyList([r.choice(STRS[:4]) for _ in range(r.choice([0, 1, 3]))])),
+    ('Bag', lambda r: Bag('t', {'a': r.choice(INTS), 'q': [1]})),
+    ('OrderedDict', lambda r: collections.OrderedDict([('b', 1), ('a', r.choice(INTS))])),
+    ('defaultdict', lambda r: collections.defaultdict(const7, {'a': r.choice(INTS)})),
+    ('Counter', lambda r: collections.Counter({'a': 2, 'b': r.choice([1, 3])})),
+    ('MySet', lambda r: MySet([1, 'a'])),
+    ('FSet', lambda r: FSet([1, 2])),
+]
+SUB_POSITIONS = ['index-probe', 'index-dict', 'call-pos', 'call-kw', 'call-twice', 'arith-probe', 'arith-builtin',
+                 'method-arg', 'member-list', 'member-dict', 'member-tuple', 'holds-T']
+
+
+def sublit_case(r, cls=None, position=None, follow=None):
+    """A literal argument that is an instance of a container SUBCLASS (namedtuple, a tuple / list / dict
+    subclass with its own constructor signature, plain list subclass, OrderedDict, defaultdict, Counter, set /
+    frozenset subclasses) at every ARGUMENT POSITION of a recorded operation — index, positional and keyword
+    call argument, right operand of every arithmetic operator, argument of a builtin method (which may store it
+    in the target), member of a list / dict / tuple literal that arg_val rebuilds — with the identity of what
+    arrives observable: a probe object / the identity function return the argument itself, the object graph of
+    [result, target, literal objects] is compared (so is what later operations did THROUGH the result to the
+    literal object)."""
+    from glom import T
+    name, mk = r.choice(SUB_MAKERS) if cls is None else next(m for m in SUB_MAKERS if m[0] == cls)
+    obj = mk(r)
+    position = position or r.choice(SUB_POSITIONS)
+    if position == 'holds-T':
+        # the literal CONTAINS a T object: it is an ordinary object, nothing in it is evaluated
+        t = r.choice([T['n'], T['zz'], T, T['l']])
+        base = SUBCLS[name][0]
+        if base == 'list':
+            obj = SUBCLS[name][1]([t, 1])
+        elif base == 'tuple':
+            obj = SUBCLS[name][1]([1, t])
+        elif base == 'dict' and name != 'Counter':
+            obj = SUBCLS[name][1]({'a': t})
+        position = r.choice(['call-pos', 'index-probe', 'arith-probe', 'member-list'])
+    target = {'ident': ident, 'mklist': mklist, 'len': len, 'add2': add2, 'p': Probe(last=None),
+              'l': [r.choice(INTS) for _ in range(r.choice([1, 2, 3]))], 't': (1, 2),
+              'd': {'a': 1, (1, 2): 'x', (0, 0): [7]}, 'n': r.choice(INTS), 's': '-'}
+    tj = enc(target)
+    g = Gen(r, target, nested_p=0.25, sub_p=0.3)
+    L = g.hlit(obj)
+    G = lambda *ks: [['__getitem__', lit(k)] for k in ks]
+    call = lambda *a, **k: ['__call__', {'call': {'args': list(a), 'kwargs': [[x, y] for x, y in k.items()]}}]
+    base = SUBCLS[name][0]
+    if position == 'index-probe':
+        start = G('p') + [['__getitem__', L]]
+    elif position == 'index-dict':
+        start = G('d') + [['__getitem__', L]]            # a hit for Point(1, 2) / Pair(0, 0); else Key/TypeError
+    elif position == 'call-pos':
+        start = G('ident') + [call(L)]
+    elif position == 'call-kw':
+        start = G('ident') + [call(x=L)]
+    elif position == 'call-twice':
+        start = G('mklist') + [call(lit(r.choice(INTS)), L, L)]        # the same object twice in the result
+    elif position == 'arith-probe':
+        start = G('p') + [[r.choice(list(BIN)), L]]
+    elif position == 'arith-builtin':
+        src, d = {'list': ('l', '__add__'), 'tuple': ('t', '__add__'), 'dict': ('d', '__or__'),
+                  'set': ('n', '__or__'), 'frozenset': ('n', '__and__')}[base]
+        if r.random() < 0.3:
+            src, d = 'n', r.choice(['__mul__', '__add__', '__mod__'])
+        start = G(src) + [[d, L]]
+    elif position == 'method-arg':
+        q = r.random()
+        if q < 0.35:
+            start = G('l') + [['__getattr__', lit('append')], call(L)]      # the target holds the literal afterwards
+        elif q < 0.6:
+            start = G('d') + [['__getattr__', lit('setdefault')], call(lit('new'), L)]
+        elif q < 0.8:
+            start = G('d') + [['__getattr__', lit('get')], call(L) if base in ('tuple', 'frozenset') else call(lit('zz'), L)]
+        else:
+            start = G('l') + [['__getattr__', lit(r.choice(['count', 'index']))], call(L)]
+    elif position == 'member-list':
+        start = G('ident') + [call({'list': [L, lit(1)]})]
+    elif position == 'member-dict':
+        start = G('ident') + [call({'dict': [[lit('k'), L]]})]
+    else:
+        start = G('p') + [['__getitem__', {'tuple': [L, lit(2)]}]]
+    n = follow if follow is not None else r.choice([0, 1, 1, 2, 3])
+    steps, vals, g, clean = grow(r, target, n, g=g, start=start)
+    if clean and r.random() < 0.3:
+        # afterwards: what the probe remembers / what the target holds now
+        steps = steps  # (the graph of [result, target, literals] already shows it)
+    return g.case(tj, steps)
+
+
 TWINS = {0: [0.0, False], 1: [1.0, True], 2: [2.0], True: [1, 1.0], False: [0, 0.0]}
 
 
-def twin_case(r, tj, steps):
+def twin_case(r, tj, steps, g=None):
     """the same chain with one int / bool literal replaced by an equal value of another type;
     the original is written first (`prebuild`) in the same process"""
     idx = [i for i, (d, a) in enumerate(steps) if d not in UNARY and isinstance(a, dict) and 'lit' in a
@@ -1104,6 +2036,8 @@ def twin_case(r, tj, steps):
     v = dec(steps[i][1]['lit'])
     w = r.choice(TWINS[v])
     twin = steps[:i] + [[steps[i][0], lit(w)]] + steps[i + 1:]
+    if g is not None:
+        return g.case(tj, twin, prebuild={'T': steps})
     return {'target': tj, 'prebuild': {'T': steps}, 'expr': {'T': twin}}
 
 
@@ -1192,6 +2126,226 @@ def reference_templates(r):
     return {'target': enc(target), 'expr': {'T': steps}}
 
 
+
+def sharing_templates(r):
+    """The target is a GRAPH when the evaluation starts: one list reachable by two paths (change it through
+    one, read it through the other), a list that contains itself, a dict that reaches the root again, a list
+    shared between a tuple and a dict, an attribute object reachable twice."""
+    xs = [r.choice(INTS[:11]) for _ in range(r.randint(2, 4))]
+    call = lambda *a: ['__call__', {'call': {'args': list(a), 'kwargs': []}}]
+    G = lambda *ks: [['__getitem__', lit(k)] for k in ks]
+    K = lambda *ks: [['k', enc(k)] for k in ks]
+    kind = r.choice(['two-paths', 'two-paths', 'self-list', 'root-cycle', 'via-tuple', 'obj-shared', 'dict-self'])
+    op = r.choice(['__add__', '__sub__', '__mul__'])
+    if kind == 'two-paths':
+        tree = {'a': {'l': xs}, 'b': {'l': [0]}, 'n': r.choice(INTS), 'len': len, 'ident': ident}
+        edits = [[['T', K('b')], ['k', enc('l')], ['T', K('a', 'l')]]]
+        mut = r.choice([[['__getattr__', lit('pop')], call()], [['__getattr__', lit('append')], call(lit(r.choice(INTS)))],
+                        [['__getattr__', lit('pop')], call(lit(0))]])
+        rd = r.choice([{'T': G('b', 'l') + [['__getitem__', lit(-1)]]},
+                       {'T': G('len') + [call({'T': G('b', 'l')})]}])
+        if mut[0][1] == lit('append'):
+            start = G('a', 'l') + mut + [['__getitem__', rd]] if r.random() < 0.3 else G('ident') + [call({'T': G('a', 'l') + mut})] + G() + [['__getitem__', lit(0)]] if False else G('a', 'l') + mut
+            start = G('b', 'l') + [['__getitem__', lit(0)]] + [[op, {'T': G('a', 'l') + mut}]] + [[op, rd]]
+        else:
+            start = G('a', 'l') + mut + [[op, rd]]
+    elif kind == 'self-list':
+        tree = {'l': xs, 'len': len}
+        edits = [[['T', K('l')], ['app', None], ['T', K('l')]]]
+        start = G('l') + [['__getitem__', lit(-1)]] * r.choice([1, 2, 3]) + \
+            r.choice([[['__getitem__', lit(0)]], [['__getattr__', lit('pop')], call(lit(0))],
+                      [['__getattr__', lit('append')], call(lit(5))], [['__getattr__', lit('pop')], call()]])
+    elif kind == 'root-cycle':
+        tree = {'d': {'up': None, 'v': xs}, 'n': r.choice(INTS)}
+        edits = [[['T', K('d')], ['k', enc('up')], ['T', []]]]
+        start = G('d', 'up') * r.choice([1, 2, 3]) + r.choice([G('n'), G('d', 'v') + [['__getattr__', lit('pop')], call()]])
+    elif kind == 'dict-self':
+        tree = {'d': {'a': 1}, 'ident': ident}
+        edits = [[['T', K('d')], ['k', enc('self')], ['T', K('d')]]]
+        start = G('ident') + [call({'T': G('d', 'self', 'self')})] + [['__getattr__', lit('setdefault')],
+                                                                       call(lit('new'), {'T': G('d', 'a')})]
+    elif kind == 'via-tuple':
+        tree = {'t': (xs, 1), 'l': None, 'len': len}
+        edits = [[['T', []], ['k', enc('l')], ['T', K('t') + [['i', 0]]]]]
+        start = G('l') + [['__getattr__', lit('append')], call(lit(9))] if r.random() < 0.5 else \
+            G('l') + [['__getattr__', lit('pop')], call()]
+        start = G('len') + [call({'T': G('t') + [['__getitem__', lit(0)]]})] + [[op, {'T': start}]] + \
+            [[op, {'T': G('len') + [call({'T': G('t') + [['__getitem__', lit(0)]]})]}]]
+    else:
+        tree = {'o': pyobjs.Obj(a=xs, b=1), 'p': {'q': None}, 'len': len}
+        edits = [[['T', K('p')], ['k', enc('q')], ['T', K('o')]]]
+        start = G('p', 'q') + [['__getattr__', lit('a')], ['__getattr__', lit('pop')], call()] + \
+            [[op, {'T': G('len') + [call({'T': G('o') + [['__getattr__', lit('a')]]})]}]]
+    case = {'target': enc(tree), 'edits': edits}
+    target, _ = build_world(case)
+    g = Gen(r, target, nested_p=0.4)
+    g.edits = edits
+    steps, vals, g, clean = grow(r, target, r.choice([0, 0, 1, 2]), g=g, start=start)
+    return g.case(case['target'], steps)
+
+
+def spec_callee_templates(r):
+    """A glom spec object (a T expression, Spec(T…), Val(x), a list holding one) found in the target's DATA and
+    used as CALLEE of a recorded call: glom passes the callee through arg_val — evaluates it against the target
+    (which may fail, with the position of ITS chain, may call, may change the target) — BEFORE the arguments are
+    evaluated; then the arguments, then the call (a non-callable result: TypeError, a failing call)."""
+    from glom import T, Spec
+    from glom.core import Val
+    xs = [r.choice(INTS[:11]) for _ in range(r.randint(2, 4))]
+    g_choices = [
+        T['ident'], T['ident'], T['inc'], T['mklist'], T['o'].f, T['l'].pop, T['l'].append, T['d'].get, T['len'],
+        Spec(T['ident']), Spec(T['l'].pop), Val(ident), Val(5), T['n'], T['s'], T['l'],
+        T['zz'], T['o'].zz, T['n']['x'], T['n'] // 0, T['o'].f.zz,
+        T['mklist'](1), T['l'].pop(), T['l'].append(7), T['g2'], T['g2'](), [T['ident']], (T['zz'],), T['raise_key'](),
+        T['const7'], T['ident'](T['ident']), T['ident'](T['inc']),
+    ]
+    gobj = r.choice(g_choices)
+    tree = {'ident': ident, 'inc': inc, 'mklist': mklist, 'len': len, 'const7': const7, 'raise_key': raise_key,
+            'l': xs, 'd': {'a': 1, 'b': [2]}, 'n': r.choice(INTS), 's': 'abc', 'o': pyobjs.Obj(f=ident, b=2),
+            'g2': T['const7'], 'g': gobj}
+    tj = enc(tree)
+    target = dec(tj)
+    g = Gen(r, target, nested_p=0.5)
+    call0 = {'call': {'args': [], 'kwargs': []}}
+    muts = [{'T': [['__getitem__', lit('l')], ['__getattr__', lit('pop')], ['__call__', call0]]},
+            {'T': [['__getitem__', lit('l')], ['__getattr__', lit('append')],
+                   ['__call__', {'call': {'args': [lit(3)], 'kwargs': []}}]]},
+            {'T': [['__getitem__', lit('zz')]]}, {'T': [['__getitem__', lit('l')], ['__getitem__', lit(0)]]}]
+    args = []
+    for _ in range(r.choice([0, 1, 1, 1, 2])):
+        q = r.random()
+        args.append(r.choice(muts) if q < 0.4 else g.anyval())
+    kws = []
+    if args and r.random() < 0.15:
+        kws = [['x', args.pop()]]
+    start = [['__getitem__', lit('g')], ['__call__', {'call': {'args': args, 'kwargs': kws}}]]
+    steps, vals, g, clean = grow(r, target, r.choice([0, 0, 1, 2]), g=g, start=start)
+    if r.random() < 0.2:
+        steps.append(failing_nested_step(r, g))
+    return g.case(tj, steps)
+
+
+def view_templates(r):
+    """dict views (live: they show what later calls did to the dict), list() / tuple() / len() over views,
+    strs, lists, tuples; the str methods; sets"""
+    tree = {'d': {'a': 1, 'b': [2], 'c': 'x'}, 'len': len, 'list': list, 'tuple': tuple, 'mklist': mklist,
+            's': r.choice(['a b  c', ' x,y,z ', 'Hello World', 'aXbXc', '', '42']), 'l': ['p', 'q'],
+            'st': {1, 2, 'a'}, 'one': {5}, 'fs': frozenset([2, 3])}
+    tj = enc(tree)
+    target = dec(tj)
+    g = Gen(r, target, nested_p=0.5)
+    call = lambda *a: ['__call__', {'call': {'args': list(a), 'kwargs': []}}]
+    G = lambda *ks: [['__getitem__', lit(k)] for k in ks]
+    view = lambda k: {'T': G('d') + [['__getattr__', lit(k)], call()]}
+    vk = r.choice(['keys', 'values', 'items'])
+    kind = r.choice(['list-view', 'len-view', 'live', 'view', 'tuple-str', 'join', 'set', 'set'])
+    if kind == 'list-view':
+        start = G(r.choice(['list', 'tuple'])) + [call(view(vk))]
+    elif kind == 'len-view':
+        start = G('len') + [call(view(vk))]
+    elif kind == 'live':
+        # the view is taken first, then the dict changes, then the view is listed
+        change = r.choice([{'T': G('d') + [['__getattr__', lit('pop')], call(lit('a'))]},
+                           {'T': G('d') + [['__getattr__', lit('setdefault')], call(lit('new'), lit(9))]}])
+        start = G('list') + [call({'T': G('mklist') + [call(view(vk), change), ['__getitem__', lit(0)]]})]
+    elif kind == 'view':
+        start = G('d') + [['__getattr__', lit(vk)], call()]
+    elif kind == 'tuple-str':
+        start = G(r.choice(['list', 'tuple'])) + [call({'T': G(r.choice(['s', 'l', 'd', 'one']))})]
+    elif kind == 'join':
+        start = G('s') + [['__getattr__', lit('join')],
+                          call(r.choice([{'T': G('l')}, {'T': G('d')}, view('keys'), {'T': G('s')}, lit(5), view('values')]))]
+    else:
+        start = G(r.choice(['st', 'fs', 'one']))
+    steps, vals, g, clean = grow(r, target, r.choice([0, 1, 2, 3]), g=g, start=start)
+    return g.case(tj, steps)
+
+
+def share_equal_args(r, case, p=0.5):
+    """the nested T arguments of the expression that are EQUAL become ONE object of the spec (a user writes
+    `k = T['key']` once and uses `k` twice): {"sh": i} at every use; chosen per group with probability p"""
+    groups = {}
+
+    def visit(e, top):
+        if isinstance(e, dict):
+            if ('T' in e or 'Spec' in e) and not top:
+                groups.setdefault(json.dumps(e, sort_keys=True), []).append(e)
+            for k, v in list(e.items()):
+                if k in ('lit', 'hl', 'sh'):
+                    continue
+                visit(v, False)
+        elif isinstance(e, list):
+            for v in e:
+                visit(v, False)
+    visit(case['expr'], True)
+    shared = list(case.get('shared', []))
+    done = False
+    for k, es in sorted(groups.items()):
+        if len(es) >= 2 and r.random() < p:
+            orig = json.loads(k)
+            shared.append(orig)
+            for e in es:
+                e.clear()
+                e['sh'] = len(shared) - 1
+            done = True
+    if done:
+        case['shared'] = shared
+    return case
+
+
+def shared_arg_templates(r):
+    """THE SAME argument object at several places of one expression, with a call in between (or inside a later
+    argument) that changes what it reads: every use is evaluated when its operation is reached.  R reads the
+    last element / the length / a cursor; M pops / appends / moves the cursor; R is a direct argument (index,
+    arithmetic operand), an argument of a nested T, a member of a list argument, a call argument — used before
+    and after M; also a second use that fails only after M."""
+    xs = [r.choice(INTS[:11]) for _ in range(r.randint(3, 5))]
+    tree = {'l': xs, 'c': [0], 'n': r.choice(INTS), 'len': len, 'ident': ident, 'mklist': mklist,
+            'o': pyobjs.Obj(cursor=0, items=[r.choice(STRS) for _ in range(3)])}
+    tj = enc(tree)
+    target = dec(tj)
+    g = Gen(r, target, nested_p=0.3)
+    call = lambda *a: ['__call__', {'call': {'args': list(a), 'kwargs': []}}]
+    G = lambda *ks: [['__getitem__', lit(k)] for k in ks]
+    op = lambda: r.choice(['__add__', '__sub__', '__mul__'])
+    kind = r.choice(['last', 'last', 'len', 'cursor', 'cursor-fail', 'outer', 'in-call', 'in-list'])
+    if kind in ('last', 'len'):
+        R = g.share({'T': G('l') + [['__getitem__', lit(-1)]]} if kind == 'last' else
+                    {'T': G('len') + [call({'T': G('l')})]})
+        M = {'T': G('l') + r.choice([[['__getattr__', lit('pop')], call()],
+                                       [['__getattr__', lit('pop')], call(lit(0))]])}
+        steps = G('n') + [[op(), R], [op(), M], [op(), R]]
+        if r.random() < 0.3:
+            steps += [[op(), M], [op(), R]]
+    elif kind in ('cursor', 'cursor-fail'):
+        # the cursor cell c[-1] indexes l; appending to c moves it
+        R = g.share({'T': G('c') + [['__getitem__', lit(-1)]]})
+        move = r.choice([1, 2]) if kind == 'cursor' else r.choice([len(xs), 99, -len(xs) - 1])
+        M = {'T': G('c') + [['__getattr__', lit('append')], call(lit(move))]}
+        steps = G('l') + [['__getitem__', R], [op(), {'T': G('mklist') + [call(M), ['__getitem__', lit(0)]]}]]
+        steps = G('mklist') + [call({'T': G('l') + [['__getitem__', R]]}, M, {'T': G('l') + [['__getitem__', R]]})]
+        if r.random() < 0.5:
+            # … as direct index arguments of the outer chain, the move inside an argument in between
+            steps = G('l') + [['__getitem__', R], ['__add__', {'T': G('len') + [call({'T': G('mklist') + [call(M)]})]}],
+                              ['__add__', {'T': G('l') + [['__getitem__', R]]}]]
+    elif kind == 'outer':
+        # the shared object is itself built from a shared object
+        R = g.share({'T': G('l') + [['__getitem__', lit(-1)]]})
+        A = g.share({'T': G('n') + [[op(), R]]})
+        M = {'T': G('l') + [['__getattr__', lit('pop')], call()]}
+        steps = G('n') + [[op(), A], [op(), M], [op(), A], [op(), R]]
+    elif kind == 'in-call':
+        R = g.share({'T': G('l') + [['__getitem__', lit(0)]]})
+        M = {'T': G('l') + [['__getattr__', lit('pop')], call(lit(0))]}
+        steps = G('mklist') + [call(R, M, R, {'T': G('ident') + [call(R)]})]
+    else:
+        R = g.share({'T': G('l') + [['__getitem__', lit(-1)]]})
+        M = {'T': G('l') + [['__getattr__', lit('pop')], call()]}
+        steps = G('ident') + [call({'list': [R, M, R, {'tuple': [R]}]})]
+    steps, vals, g, clean = grow(r, target, r.choice([0, 0, 1]), g=g, start=steps)
+    return g.case(tj, steps)
+
+
 def failing_nested_step(r, g):
     """a later operation whose nested T argument fails as well (never reached)"""
     inner = r.choice([[['__getitem__', lit('nope')]], [['__getattr__', lit('zz')]],
@@ -1220,6 +2374,7 @@ def noncallable_templates(r):
     f = r.choice([3, 'abc', None, 2.5, [1, 2], (1,), {'a': 1}, pyobjs.Obj(a=1), True])
     target = {'f': f, 'l': [r.choice(INTS[:11]) for _ in range(n)], 'd': {'a': r.choice(INTS), 'b': r.choice(INTS)},
               'n': r.choice(INTS), 'len': len}
+    tj = enc(target)
     g = Gen(r, target, nested_p=0.6)
     if r.random() < 0.25:
         callee = [['__getitem__', lit('l')], ['__getitem__', lit(0)]]
@@ -1233,7 +2388,7 @@ def noncallable_templates(r):
         steps.append(['__getitem__', lit(0)])          # never reached
     elif q < 0.45:
         steps.append(failing_nested_step(r, g))
-    return {'target': enc(target), 'expr': {'T': steps}}
+    return g.case(tj, steps)
 
 
 def as_steps(st):
@@ -1252,9 +2407,9 @@ def arith_failures(r):
     directly in Python fails where intended (at the last step of arith_fail, in an arithmetic
     operation); the expected outcome is always computed by Python, never assumed."""
     for _ in range(20):
-        target = gen_target(r)
-        tj = enc(target)
-        g = Gen(r, target, nested_p=0.5)
+        target, tj, edits = gen_world(r, share_p=0.1)
+        g = Gen(r, target, nested_p=0.5, sub_p=0.05)
+        g.edits = edits
         starts = [(st, v) for st, v in g.src
                   if (isinstance(v, (int, float)) and is_finite(v)) or type(v) in (str, list, tuple)]
         nums = [(st, v) for st, v in starts if isinstance(v, (int, float))]
@@ -1268,7 +2423,7 @@ def arith_failures(r):
             if st is None or st[0] in ('__getattr__', '__getitem__', '__call__'):
                 break
             try:
-                cur = apply_op(st[0], cur, None if st[0] in UNARY else direct_arg(st[1], target))
+                cur = apply_op(st[0], cur, None if st[0] in UNARY else g.value(st[1]))
             except Exception:
                 ok = False
                 break
@@ -1286,22 +2441,23 @@ def arith_failures(r):
             steps.append(failing_nested_step(r, g))       # never reached
         elif q < 0.5:
             steps.append([r.choice(['__add__', '__truediv__', '__pow__']), lit(r.choice([1, 0, -1]))])
-        obs, _ = direct_obs({'T': steps}, dec(tj))
+        c = g.case(tj, steps)
+        w_t, w_l = build_world(c)
+        obs, _ = direct_obs({'T': steps}, w_t, w_l)
         f = obs.get('fail')
         if f and f['k'] == pos and f['kind'] in ARITH_KINDS:
-            return {'target': tj, 'expr': {'T': steps}}
+            return c
     return None
 
 
 def generate(rng, tier, scale, **focus):
-    n = (1200 if tier == 'quick' else 30000) * scale
+    n = (2000 if tier == 'quick' else 30000) * scale
     maxlen = 6 if tier == 'quick' else 9
     prefer = focus.get('prefer')
     for i in range(n):
-        target = gen_target(rng)
-        tj = enc(target)                 # before the chain is grown: calls may change the target
+        target, tj, edits = gen_world(rng)   # tj: before the chain is grown (calls may change the target)
         want = rng.randint(1, maxlen)
-        steps, vals, g, clean = grow(rng, target, want, prefer=prefer)
+        steps, vals, g, clean = grow(rng, target, want, prefer=prefer, edits=edits)
         mode = rng.random()
         if clean and mode < 0.30:
             # one-edit mutation: the step at position k is replaced by a failing one …
@@ -1316,22 +2472,34 @@ def generate(rng, tier, scale, **focus):
             # an operation appended beyond the end of a valid chain
             steps = steps + as_steps(g.bad_step(vals[-1]))
         elif clean and mode < 0.46:
-            tw = twin_case(rng, tj, steps)
+            tw = twin_case(rng, tj, steps, g)
             if tw is not None:
                 yield tw
                 continue
-        yield {'target': tj, 'expr': {'T': steps}}
+        yield share_equal_args(rng, g.case(tj, steps))
     for i in range(n // 5):
         c = arith_failures(rng)
         if c is not None:
             yield c
+    for i in range(n // 4):
+        yield sublit_case(rng)
     for i in range(n // 12):
+        yield shared_arg_templates(rng)
+        yield sharing_templates(rng)
+        yield spec_callee_templates(rng)
+        yield view_templates(rng)
         yield noncallable_templates(rng)
         yield twin_templates(rng)
         if STATEFUL:
-            yield stateful_templates(rng)
+            yield share_equal_args(rng, stateful_templates(rng), 0.7)
         yield reference_templates(rng)
+    grid = list(BIN)
+    for i in range(n // 20):
+        # a sample of the operator x type x type grid (thorough: all of it)
+        yield type_grid_case(rng.choice(grid), rng.choice(TYPE_GRID), rng.choice(TYPE_GRID), rng.random() < 0.5)
     if tier == 'thorough' and not focus:
+        yield from exhaustive_types()
+        yield from exhaustive_sublit(rng)
         yield from exhaustive()
         yield from exhaustive_arith_errors()
         if STATEFUL:
@@ -1353,6 +2521,46 @@ def exhaustive():
     for d in UNARY:
         for a in vals:
             yield {'target': enc(a), 'expr': {'T': [[d, lit(None)], [d, lit(None)]]}}
+
+
+
+TYPE_GRID = [3, 0, True, 2.5, 'ab', '', [1], [], (1,), (), {1}, set(), frozenset([1]), {'a': 1}, {}, None]
+
+
+def type_grid_case(d, a, b, nested):
+    """one binary operator on operands of two given types (literal or nested-T right operand)"""
+    if nested:
+        g = Gen(random.Random(0), None, nested_p=0, sub_p=0)
+        return {'target': enc({'x': a, 'y': b}),
+                'expr': {'T': [['__getitem__', lit('x')], [d, {'T': [['__getitem__', lit('y')]]}]]}}
+    g = Gen(random.Random(0), None, nested_p=0, sub_p=0)
+    return {'target': enc({'x': a}), 'expr': {'T': [['__getitem__', lit('x')], [d, g.container(b)]]}}
+
+
+def exhaustive_types():
+    """every binary operator x (int, bool, float, str, list, tuple, set, frozenset, dict, None; empty and
+    non-empty) on both sides, literal and nested-T right operand, and both unary operators on each: the exact
+    class of every outcome (a value of the right type, or TypeError / ZeroDivisionError / … as PathAccessError)"""
+    for d in BIN:
+        for a in TYPE_GRID:
+            for b in TYPE_GRID:
+                if d == '__mod__' and type(a) is str:
+                    continue
+                yield type_grid_case(d, a, b, False)
+                yield type_grid_case(d, a, b, True)
+    for d in UNARY:
+        for a in TYPE_GRID:
+            yield {'target': enc({'x': a}), 'expr': {'T': [['__getitem__', lit('x')], [d, lit(None)]]}}
+
+
+def exhaustive_sublit(r):
+    """every catalogue class of container-subclass literal x every argument position, with and without
+    operations on the result"""
+    for name, _ in SUB_MAKERS:
+        for pos in SUB_POSITIONS:
+            for follow in (0, 2):
+                for _ in range(3):
+                    yield sublit_case(r, cls=name, position=pos, follow=follow)
 
 
 def exhaustive_arith_errors():
@@ -1454,14 +2662,15 @@ def corpus():
 
 def key(case):
     k = {'target': case['target'], 'expr': case['expr']}
-    if case.get('prebuild'):
-        k['prebuild'] = case['prebuild']
+    for f in ('prebuild', 'lits', 'edits', 'shared'):
+        if case.get(f):
+            k[f] = case[f]
     return k
 
 
 def has_nested(e):
     if isinstance(e, dict):
-        if 'T' in e or 'Spec' in e:
+        if 'T' in e or 'Spec' in e or 'sh' in e:
             return True
         return any(has_nested(v) for v in e.values())
     if isinstance(e, list):
@@ -1472,23 +2681,47 @@ def has_nested(e):
 def nontrivial(case, verdict):
     steps = case['expr']['T']
     return (len(steps) >= 2 or 'ok' not in (case.get('impl') or {})
-            or any(has_nested(a) for _, a in steps))
+            or any(has_nested(a) for _, a in steps) or bool(case.get('lits')) or bool(case.get('edits')))
+
+
+def plain_tree(v, depth=0):
+    """a value `lit` can spell: scalars and exact list / tuple / dict of such"""
+    if depth > 6:
+        return False
+    if v is None or type(v) in (bool, int, str, float):
+        return True
+    if type(v) in (list, tuple):
+        return all(plain_tree(x, depth + 1) for x in v)
+    if type(v) is dict:
+        return all(plain_tree(k, depth + 1) and plain_tree(x, depth + 1) for k, x in v.items())
+    return False
 
 
 def shrink(case):
-    base = {k: v for k, v in case.items() if k not in ('impl', 'direct', 'impl_after', 'direct_after', 'impl_alias', 'direct_alias')}
+    base = {k: v for k, v in case.items() if k not in OBS_KEYS}
     steps = case['expr']['T']
     for i in range(len(steps)):
         c = dict(base)
         c['expr'] = {'T': steps[:i] + steps[i + 1:]}
         yield c
+    # without one of the sharing edits
+    edits = case.get('edits') or []
+    for i in range(len(edits)):
+        c = dict(base)
+        c['edits'] = edits[:i] + edits[i + 1:]
+        yield c
     # replace nested arguments by their value
-    target = dec(case['target'])
+    try:
+        target, lits = build_world(case)
+    except Exception:
+        return
     for i, (d, a) in enumerate(steps):
         if has_nested(a) and 'call' not in a:
             try:
-                v = direct_arg(a, target)
+                v = direct_arg(a, target, lits)
             except Exception:
+                continue
+            if not plain_tree(v):
                 continue
             c = dict(base)
             c['expr'] = {'T': steps[:i] + [[d, lit(v)]] + steps[i + 1:]}
